@@ -6526,3 +6526,2340 @@ class FnCmd:
             return CmdV(("opt", v.ty), None if v.term is None else "(Some %s)" % v.term, known=("Some", v))
         x, v = self.closure_body(clo, r.ty[1], env, ctx)
         return CmdV(("opt", v.ty), "(option_map (fun %s : %s => %s) %s)" % (x, self.cfg["coq_type"](r.ty[1]), v.term, r.term))
+
+
+# =================================================================================================
+# Value wave, builder B23 (first client: lib/gen/include_gen.py — duckscript/src/preprocessor/include_files_preprocessor.rs,
+# preprocessor/mod.rs and the parse_file / parse_text wrappers of parser.rs).  Purely additive: nothing above this line is
+# changed.  The parser extends PQ (the `?` operator) with closures; the executor FnV is a NEW class (continuation passing).
+#
+#   PV / parse_fn_v   closures `|a, _| expr` together with the PQ grammar
+#   FnV   symbolic executor for "value" functions: functions that compute a value by nested `if` / `match` / `if let` used
+#         as EXPRESSIONS, with locals that are mutated by method calls, and that hand the verdict of a callee on.
+#     * every Rust value is a VV (type, Coq term; struct values carry one VV per field, so `s.f = e` and `s.f` need no
+#       record on the Coq side); control flow copies the continuation into the branches: the result is a decision tree;
+#     * `match` / `if let` on an Option, on a Result-like value of a configured KIND (cfg["res_kinds"]: how Ok / Err are
+#       spelled in the model and what their payloads are), on a value of a configured enum (cfg["enums"]), on a string
+#       against literals (`match s.as_ref() { "a" => .., _ => .. }` is a chain of str_eqb tests), or with a lone `_` arm;
+#       a match on a literal `Some(..)` / `None` / `Ok(..)` / `Err(..)` is decided here;
+#     * `CALL?` and `CALL.map_err(|e| E)?`: the Err arm returns the function's error result for the (mapped) payload;
+#     * what a free function / associated function / constructor / method MEANS is the configuration's (cfg["calls"],
+#       cfg["methods"], cfg["mutators"]); only the Rust-core spellings that cannot change a value of the model are built in
+#       (`to_string / to_owned / clone / as_str / as_ref / into / iter` as the identity on strings, options, lists, structs;
+#       `starts_with`, `is_empty`, `is_some / is_none`, `== / !=` on strings, `Vec::push / append / extend`);
+#       a call the configuration does not list is Rs2vError.  Free functions of the SAME file that are not configured are
+#       inlined at the call (their `return` is the call's value);
+#     * ONE `for x in LIST { .. }` (not nested): the mutable locals of the enclosing function the body assigns are the loop
+#       state (their TYPES are fixed by cfg["loop"]["state_types"], not their names); the body becomes
+#       `Definition <coq_name>_body <fn binders> (st : S) (x : T) : lstep S R` driven by Rs2vCliLib.for_each_r, `return e`
+#       inside the body is `LRet <function result>`;
+#     * SLICE mode (cfg["slice_call"]): the walk of the loop body up to the first call of the named callee, whose argument
+#       is the result (the "which file does this iteration read" function); a path through the body that ends without that
+#       call, or that depends on the loop state, is Rs2vError.
+#   Everything not understood raises Rs2vError; nothing is guessed.
+class PV(PQ):
+    def unary(self, no_struct):
+        if self.at("op", "|") or self.at("op", "||"):
+            names = []
+            if not self.opt("op", "||"):
+                self.eat("op", "|")
+                while not self.at("op", "|"):
+                    self.opt("op", "&")
+                    self.opt("id", "mut")
+                    names.append(self.eat("id"))
+                    if self.at("op", ":"):
+                        raise Rs2vError("closure parameter with a type annotation")
+                    if not self.opt("op", ","):
+                        break
+                self.eat("op", "|")
+            if self.at("op", "{"):
+                raise Rs2vError("closure with a block body")
+            return ("closure", names, self.expr(no_struct=no_struct))
+        return super().unary(no_struct)
+
+
+def parse_fn_v(src, name):
+    """-> (params, body) of the free function `name`, PV grammar; exactly one definition must exist"""
+    ms = list(re.finditer(r"(?:pub(?:\([a-z]+\))?\s+)?\bfn\s+%s\s*\(" % re.escape(name), src))
+    if len(ms) != 1:
+        raise Rs2vError("fn %s: %d definitions" % (name, len(ms)))
+    p = PV(lex_q(src[ms[0].start():], stop_after_item=True))
+    _n, params, body = p.fn()
+    return params, body
+
+
+class VV:
+    """a symbolic Rust value.  ty: "str" / "bool" / "unit" / "serr" (a script error: term is the TEXT of the three
+    arguments kind line source) / any configured name, or ("option", T) / ("list", T) / ("struct", Name) / ("res", kind) /
+    ("lit_ok",) / ("lit_err",) (an `Ok(..)` / `Err(..)` literal whose Result type is decided by its use: payload in
+    `known`) / ("closure",).  fields: struct values.  pats: {"some": fmt, "none": pattern} for option-like values the model
+    spells differently.  errmap: a Python function VV -> VV applied to the Err payload (`map_err`)."""
+    __slots__ = ("ty", "term", "fields", "pats", "errmap", "known")
+
+    def __init__(self, ty, term=None, fields=None, pats=None, errmap=None, known=None):
+        self.ty, self.term, self.fields, self.pats, self.errmap, self.known = ty, term, fields, pats, errmap, known
+
+    def __repr__(self):
+        return "VV(%r, %r)" % (self.ty, self.term)
+
+
+VV_UNIT = VV("unit", "tt")
+V_IDENTITY = ("to_string", "to_owned", "clone", "as_str", "as_ref", "into", "borrow", "as_slice", "to_vec", "iter", "into_iter",
+              "cloned", "as_deref")
+V_LIST_MUT = ("push", "append", "extend", "clear", "push_str")
+
+
+class _SliceDone(Exception):
+    pass
+
+
+class FnV:
+    """cfg keys:
+      coq_name     prefix of the loop-body definition
+      params       {rust parameter: VV}
+      locals       {rust local: type}                 declared type of `let mut x = vec![] / None` (else taken from the first use)
+      result       {"coq": Coq type of the function result, "ok": fmt, "ok_type": type, "err": fmt % "kind line source"}
+                   or {"finish": f(fn, VV) -> term}   for a function that does not return a Result
+      res_kinds    {kind: {"coq": Coq type, "ok": (pattern fmt, payload type), "err": f(fn) -> (pattern, payload VV)}}
+      enums        {type: {"ctors": {rust ctor path: f(fn, [sub-pattern names]) -> (pattern, {name: VV})}, "all": n}}
+      calls        {rust path: f(fn, [VV], [arg exprs], env) -> VV}     free / associated functions, constructors
+      methods      {(type tag, method): f(fn, receiver VV, [VV]) -> VV}  type tag = ty or ty[0]
+      mutators     {(type tag, method): f(fn, receiver VV, [VV]) -> new receiver VV}
+      struct_lits  {rust struct name: f(fn, {field: VV}) -> VV}             `Name { f: e, .. }`
+      coq_type     f(ty) -> Coq type text
+      fn_params / fn_args    binder text / argument text of the loop-body definition (the function's own parameters)
+      loop         {"state_types": [type, ..]}
+      helper_src   text of the file (free functions that are not configured are inlined)
+      slice_call / slice_item   see the block comment
+    """
+
+    def __init__(self, cfg):
+        self.cfg = cfg
+        self.n = 0
+        self.bound = set()
+        self.loops = []
+        self.depth = 0
+        self.slice_term = None
+
+    # ---- small helpers
+    def fresh(self, base):
+        self.n += 1
+        v = "%s_%d" % (re.sub(r"[^A-Za-z0-9_]", "_", base or "x"), self.n)
+        self.bound.add(v)
+        return v
+
+    def closed(self, term):
+        return isinstance(term, str) and POISON not in term and not (set(re.findall(r"[A-Za-z_][A-Za-z0-9_']*", term)) & self.bound)
+
+    @staticmethod
+    def tag(ty):
+        return ty[0] if isinstance(ty, tuple) else ty
+
+    def unify(self, a, b, what):
+        """types with the wildcard "?" (the element type of `vec![]` / the payload of `None` before its first use)"""
+        if a == "?":
+            return b
+        if b == "?":
+            return a
+        if isinstance(a, tuple) and isinstance(b, tuple) and len(a) == len(b) and a[0] == b[0]:
+            return (a[0],) + tuple(self.unify(x, y, what) for x, y in zip(a[1:], b[1:]))
+        if a != b:
+            raise Rs2vError("%s: type %r where %r is expected" % (what, a, b))
+        return a
+
+    def term(self, v, what):
+        if v.term is None or not isinstance(v.term, str):
+            raise Rs2vError("%s has no model term (type %r)" % (what, v.ty))
+        return v.term
+
+    # ---- whole function
+    def function(self, params, body, name="?"):
+        env = {}
+        for pn, mut_ref in params:
+            if pn not in self.cfg["params"]:
+                raise Rs2vError("parameter %s of fn %s is not configured" % (pn, name))
+            if mut_ref:
+                raise Rs2vError("&mut parameter %s" % pn)
+            env[pn] = self.cfg["params"][pn]
+        if sorted(env) != sorted(self.cfg["params"]):
+            raise Rs2vError("fn %s has parameters %s" % (name, [p for p, _ in params]))
+        self.me = name
+        ctx = {"ret": lambda v, env2: self.fn_result(v)}
+        try:
+            out = self.block(body, env, lambda v, env2: self.fn_result(v), ctx)
+        except _SliceDone:
+            out = None
+        if self.cfg.get("slice_call"):
+            if self.slice_term is None:
+                raise Rs2vError("no loop whose body calls %s" % self.cfg["slice_call"])
+            out = self.slice_term
+        if POISON in out or any(POISON in t for _n, t in self.loops):
+            raise Rs2vError("a value that is not available to the model is used")
+        return out
+
+    def fn_result(self, v):
+        r = self.cfg["result"]
+        if "finish" in r:
+            return r["finish"](self, v)
+        if v.ty == ("lit_ok",):
+            p = v.known
+            self.unify(p.ty, r["ok_type"], "Ok(..) as the function result")
+            return r["ok"] % self.term(p, "the Ok payload")
+        if v.ty == ("lit_err",):
+            p = v.known
+            if p.ty != "serr":
+                raise Rs2vError("Err(..) of a %r as the function result" % (p.ty,))
+            return r["err"] % self.term(p, "the error")
+        if self.tag(v.ty) == "res":
+            k = self.cfg["res_kinds"][v.ty[1]]
+            if k["coq"] != r["coq"]:
+                raise Rs2vError("a %s is returned where the function returns %s" % (k["coq"], r["coq"]))
+            if v.errmap is not None:
+                raise Rs2vError("map_err on a value that is returned as it is")
+            return self.term(v, "the returned result")
+        raise Rs2vError("function result of type %r" % (v.ty,))
+
+    # ---- blocks and statements
+    def block(self, b, env, k, ctx):
+        if b is None:
+            return k(VV_UNIT, env)
+        if b[0] != "block":
+            return self.ev(b, env, k, ctx)
+        declared = set()
+
+        def leave(v, env2):
+            env3 = {}
+            for n, x in env2.items():
+                if n in declared:
+                    if n in env:
+                        env3[n] = env[n]
+                else:
+                    env3[n] = x
+            return k(v, env3)
+
+        def go(i, env_):
+            if i == len(b[1]):
+                if b[2] is None:
+                    return leave(VV_UNIT, env_)
+                return self.ev(b[2], env_, leave, ctx)
+            return self.stmt(b[1][i], env_, lambda env2: go(i + 1, env2), ctx, declared)
+        return go(0, env)
+
+    def stmt(self, s, env, cont, ctx, declared):
+        k = s[0]
+        if k == "let":
+            name = s[1]
+
+            def bound(v, env2):
+                want = self.cfg.get("locals", {}).get(name)
+                if want is not None and self.tag(v.ty) not in ("lit_ok", "lit_err"):
+                    v = VV(self.unify(v.ty, want, "let %s" % name), v.term, v.fields, v.pats, v.errmap, v.known)
+                env3 = dict(env2)
+                env3[name] = v
+                declared.add(name)
+                return cont(env3)
+            return self.ev(s[2], env, bound, ctx)
+        if k == "assign":
+            if s[2] != "=":
+                raise Rs2vError("assignment operator %s" % s[2])
+            lv = self.lvalue(s[1])
+            if lv is None or lv[0] not in env:
+                raise Rs2vError("assignment to %r" % (s[1],))
+
+            def assigned(v, env2):
+                old = self.get(env2, lv)
+                v2 = VV(self.unify(v.ty, old.ty, "assignment to %s" % ".".join(lv)), v.term, v.fields, v.pats, v.errmap, v.known)
+                return cont(self.set(env2, lv, v2))
+            return self.ev(s[3], env, assigned, ctx)
+        if k == "expr":
+            return self.ev(s[1], env, lambda _v, env2: cont(env2), ctx)
+        if k == "return":
+            if s[1] is None:
+                return ctx["ret"](VV_UNIT, env)
+            return self.ev(s[1], env, lambda v, env2: ctx["ret"](v, env2), ctx)
+        if k == "for":
+            return self.for_(s, env, cont, ctx)
+        raise Rs2vError("statement %s" % k)
+
+    # ---- lvalues
+    def lvalue(self, e):
+        while e[0] in ("ref", "refmut"):
+            e = e[1]
+        if e[0] == "path" and len(e[1]) == 1:
+            return (e[1][0],)
+        if e[0] == "field":
+            b = self.lvalue(e[1])
+            return None if b is None else b + (e[2],)
+        return None
+
+    def get(self, env, lv):
+        if lv[0] not in env:
+            raise Rs2vError("unknown variable %s" % lv[0])
+        v = env[lv[0]]
+        for f in lv[1:]:
+            if v.fields is None or f not in v.fields:
+                raise Rs2vError("field %s of a value of type %r" % (f, v.ty))
+            v = v.fields[f]
+        return v
+
+    def set(self, env, lv, new):
+        def upd(v, rest):
+            if not rest:
+                return new
+            if v.fields is None or rest[0] not in v.fields:
+                raise Rs2vError("field %s of a value of type %r" % (rest[0], v.ty))
+            f = dict(v.fields)
+            f[rest[0]] = upd(v.fields[rest[0]], rest[1:])
+            return VV(v.ty, None, f)
+        env2 = dict(env)
+        env2[lv[0]] = upd(env[lv[0]], lv[1:])
+        return env2
+
+    # ---- expressions
+    def ev_list(self, es, env, k, ctx):
+        def go(i, acc, env_):
+            if i == len(es):
+                return k(acc, env_)
+            return self.ev(es[i], env_, lambda v, env2: go(i + 1, acc + [v], env2), ctx)
+        return go(0, [], env)
+
+    def ev(self, e, env, k, ctx):
+        t = e[0]
+        if t == "path":
+            if len(e[1]) == 1:
+                n = e[1][0]
+                if n in env:
+                    return k(env[n], env)
+                if n == "None":
+                    return k(VV(("option", "?"), "None"), env)
+            h = self.cfg.get("calls", {}).get("::".join(e[1]))
+            if h is not None:
+                return k(h(self, [], [], env), env)
+            raise Rs2vError("unknown name %s" % "::".join(e[1]))
+        if t == "str":
+            return k(VV("str", coq_str_lit(e[1]), known=("lit", e[1])), env)
+        if t == "char":
+            return k(VV("char", coq_char(e[1]), known=("lit", e[1])), env)
+        if t == "bool":
+            return k(VV("bool", "true" if e[1] else "false"), env)
+        if t in ("ref", "refmut"):
+            return self.ev(e[1], env, k, ctx)
+        if t == "tuple" and not e[1]:
+            return k(VV_UNIT, env)
+        if t == "field":
+            def fld(v, env2):
+                if v.fields is None or e[2] not in v.fields:
+                    raise Rs2vError("field %s of a value of type %r" % (e[2], v.ty))
+                return k(v.fields[e[2]], env2)
+            return self.ev(e[1], env, fld, ctx)
+        if t == "not":
+            def neg(v, env2):
+                self.unify(v.ty, "bool", "operand of !")
+                return k(VV("bool", "(negb %s)" % v.term), env2)
+            return self.ev(e[1], env, neg, ctx)
+        if t == "bin":
+            return self.ev_list([e[2], e[3]], env, lambda vs, env2: k(self.binop(e[1], vs[0], vs[1]), env2), ctx)
+        if t == "if":
+            return self.if_(e, env, k, ctx)
+        if t == "iflet":
+            arms = [(e[1], e[3]), (("wild",), e[4])]
+            return self.ev(e[2], env, lambda v, env2: self.match_(v, arms, env2, k, ctx), ctx)
+        if t == "match":
+            return self.ev(e[1], env, lambda v, env2: self.match_(v, e[2], env2, k, ctx), ctx)
+        if t == "block":
+            return self.block(e, env, k, ctx)
+        if t == "macro":
+            if e[1] == "vec" and not e[2]:
+                return k(VV(("list", "?"), "[]"), env)
+            h = self.cfg.get("macros", {}).get(e[1])
+            if h is None:
+                raise Rs2vError("macro %s!" % e[1])
+            return k(h(self, e[2], env), env)
+        if t == "closure":
+            return k(VV(("closure",), None, known=(e[1], e[2], env)), env)
+        if t == "struct":
+            h = self.cfg.get("struct_lits", {}).get("::".join(e[1]))
+            if h is None:
+                raise Rs2vError("struct literal %s" % "::".join(e[1]))
+            names = [f for f, _x in e[2]]
+            if len(set(names)) != len(names):
+                raise Rs2vError("struct literal with a repeated field")
+            return self.ev_list([x for _f, x in e[2]], env, lambda vs, env2: k(h(self, dict(zip(names, vs))), env2), ctx)
+        if t == "try":
+            return self.ev(e[1], env, lambda v, env2: self.try_(v, env2, k, ctx), ctx)
+        if t == "call":
+            return self.call(e, env, k, ctx)
+        if t == "mcall":
+            return self.mcall(e, env, k, ctx)
+        raise Rs2vError("expression %s" % t)
+
+    def binop(self, op, a, b):
+        if op in ("||", "&&"):
+            self.unify(a.ty, "bool", "operand of %s" % op)
+            self.unify(b.ty, "bool", "operand of %s" % op)
+            return VV("bool", "(%s %s %s)" % ("orb" if op == "||" else "andb", a.term, b.term))
+        if op in ("==", "!="):
+            if a.ty == "str" and b.ty == "str":
+                t = "(str_eqb %s %s)" % (a.term, b.term)
+                return VV("bool", t if op == "==" else "(negb %s)" % t)
+            raise Rs2vError("comparison of %r with %r" % (a.ty, b.ty))
+        raise Rs2vError("operator %s" % op)
+
+    def if_(self, e, env, k, ctx):
+        def go(c, env2):
+            self.unify(c.ty, "bool", "condition of if")
+            if c.term == "true":
+                return self.block(e[2], env2, k, ctx)
+            if c.term == "false":
+                return self.block(e[3], env2, k, ctx)
+            return "if %s then\n%s\nelse\n%s" % (c.term, self.block(e[2], env2, k, ctx), self.block(e[3], env2, k, ctx))
+        return self.ev(e[1], env, go, ctx)
+
+    # ---- match
+    def arm(self, body, env, binds, k, ctx):
+        """an arm body with its pattern variables: they go out of scope after it"""
+        env2 = dict(env)
+        env2.update(binds)
+
+        def leave(v, env3):
+            env4 = {}
+            for n, x in env3.items():
+                if n in binds:
+                    if n in env:
+                        env4[n] = env[n]
+                else:
+                    env4[n] = x
+            return k(v, env4)
+        return self.block(body, env2, leave, ctx)
+
+    def split(self, arms, allowed):
+        named, wild = {}, None
+        for i, (pat, body) in enumerate(arms):
+            if pat[0] == "wild":
+                if i != len(arms) - 1:
+                    raise Rs2vError("`_` arm that is not the last one")
+                wild = (body,)
+            elif pat[0] == "ctor":
+                n = "::".join(pat[1])
+                if n in named:
+                    raise Rs2vError("two arms for %s" % n)
+                if allowed is not None and n not in allowed:
+                    raise Rs2vError("arm %s on a value that has no such constructor" % n)
+                named[n] = (pat[2], body)
+            else:
+                raise Rs2vError("match pattern %r" % (pat,))
+        return named, wild
+
+    def match_(self, v, arms, env, k, ctx):
+        tg = self.tag(v.ty)
+        if len(arms) == 1 and arms[0][0][0] == "wild":
+            return self.arm(arms[0][1], env, {}, k, ctx)
+        if tg == "option":
+            return self.match_option(v, arms, env, k, ctx)
+        if tg in ("lit_ok", "lit_err"):
+            named, wild = self.split(arms, ("Ok", "Err"))
+            n = "Ok" if tg == "lit_ok" else "Err"
+            if n in named:
+                subs, body = named[n]
+                if len(subs) != 1:
+                    raise Rs2vError("%s pattern" % n)
+                return self.arm(body, env, {subs[0]: v.known} if subs[0] else {}, k, ctx)
+            if wild is None:
+                raise Rs2vError("match without an arm for %s" % n)
+            return self.arm(wild[0], env, {}, k, ctx)
+        if tg == "res":
+            return self.match_res(v, arms, env, k, ctx)
+        if tg == "str" and all(p[0] in ("str", "wild") for p, _b in arms):
+            if arms[-1][0][0] != "wild" or any(p[0] == "wild" for p, _b in arms[:-1]):
+                raise Rs2vError("match on a string needs exactly one `_` arm, the last one")
+            s = self.term(v, "the matched string")
+            out = self.arm(arms[-1][1], env, {}, k, ctx)
+            for p, body in reversed(arms[:-1]):
+                out = "if (str_eqb %s %s) then\n%s\nelse\n%s" % (s, coq_str_lit(p[1]), self.arm(body, env, {}, k, ctx), out)
+            return out
+        en = self.cfg.get("enums", {}).get(v.ty)
+        if en is not None:
+            named, wild = self.split(arms, en["ctors"])
+            out = ["match %s with" % self.term(v, "the matched value")]
+            for n in named:
+                pat, binds = en["ctors"][n](self, named[n][0])
+                out += ["| %s =>" % pat, self.arm(named[n][1], env, binds, k, ctx)]
+            if wild is not None:
+                if len(named) < en["all"]:
+                    out += ["| _ =>", self.arm(wild[0], env, {}, k, ctx)]
+            elif len(named) != en["all"]:
+                raise Rs2vError("match without `_` that does not name every constructor")
+            out.append("end")
+            return "\n".join(out)
+        raise Rs2vError("match on a value of type %r" % (v.ty,))
+
+    def match_option(self, v, arms, env, k, ctx):
+        named, wild = self.split(arms, ("Some", "None"))
+        inner = v.ty[1]
+        s = self.term(v, "the matched option")
+        known = None
+        if v.pats is None:
+            if s == "None":
+                known = ("None", None)
+            elif some_inner(s) is not None:
+                known = ("Some", VV(inner, some_inner(s), v.fields))
+        if v.known is not None and v.known[0] in ("Some", "None"):
+            known = v.known
+
+        def body_of(n):
+            if n in named:
+                return named[n]
+            if wild is None:
+                raise Rs2vError("match on an Option without an arm for %s" % n)
+            return (None, wild[0])
+
+        def some_arm(payload):
+            subs, body = body_of("Some")
+            if subs is not None and len(subs) != 1:
+                raise Rs2vError("Some pattern")
+            return self.arm(body, env, {subs[0]: payload} if subs and subs[0] else {}, k, ctx)
+
+        def none_arm():
+            subs, body = body_of("None")
+            if subs:
+                raise Rs2vError("None pattern with arguments")
+            return self.arm(body, env, {}, k, ctx)
+        if known is not None:
+            return some_arm(known[1]) if known[0] == "Some" else none_arm()
+        if inner == "?":
+            raise Rs2vError("match on an Option of unknown payload type")
+        pats = v.pats or {"some": "Some %s", "none": "None"}
+        hint = named["Some"][0][0] if "Some" in named and named["Some"][0] and named["Some"][0][0] else "x"
+        x = self.fresh(hint)
+        return "match %s with\n| %s =>\n%s\n| %s =>\n%s\nend" % (s, pats["some"] % x, some_arm(VV(inner, x)), pats["none"], none_arm())
+
+    def match_res(self, v, arms, env, k, ctx):
+        kind = self.cfg["res_kinds"][v.ty[1]]
+        named, wild = self.split(arms, ("Ok", "Err"))
+
+        def body_of(n):
+            if n in named:
+                return named[n]
+            if wild is None:
+                raise Rs2vError("match on a Result without an arm for %s" % n)
+            return (None, wild[0])
+        osubs, obody = body_of("Ok")
+        esubs, ebody = body_of("Err")
+        if (osubs is not None and len(osubs) != 1) or (esubs is not None and len(esubs) != 1):
+            raise Rs2vError("Ok / Err pattern")
+        x = self.fresh(osubs[0] if osubs and osubs[0] else "r")
+        okfmt, okty = kind["ok"]
+        epat, epayload = kind["err"](self)
+        if v.errmap is not None:
+            epayload = v.errmap(epayload)
+        return "match %s with\n| %s =>\n%s\n| %s =>\n%s\nend" % (
+            self.term(v, "the matched result"), okfmt % x,
+            self.arm(obody, env, {osubs[0]: VV(okty, x)} if osubs and osubs[0] else {}, k, ctx), epat,
+            self.arm(ebody, env, {esubs[0]: epayload} if esubs and esubs[0] else {}, k, ctx))
+
+    def try_(self, v, env, k, ctx):
+        """VALUE?"""
+        tg = self.tag(v.ty)
+        if tg == "lit_ok":
+            return k(v.known, env)
+        if tg == "lit_err":
+            return ctx["ret"](v, env)
+        if tg != "res":
+            raise Rs2vError("`?` on a value of type %r" % (v.ty,))
+        kind = self.cfg["res_kinds"][v.ty[1]]
+        x = self.fresh("r")
+        okfmt, okty = kind["ok"]
+        epat, epayload = kind["err"](self)
+        if v.errmap is not None:
+            epayload = v.errmap(epayload)
+        if epayload.ty != "serr":
+            raise Rs2vError("`?` would convert an error of type %r" % (epayload.ty,))
+        return "match %s with\n| %s =>\n%s\n| %s =>\n%s\nend" % (
+            self.term(v, "the result under `?`"), okfmt % x, k(VV(okty, x), env), epat,
+            ctx["ret"](VV(("lit_err",), None, known=epayload), env))
+
+    def apply_closure(self, clo, args, ctx):
+        names, body, cenv = clo.known
+        if len(names) != len(args):
+            raise Rs2vError("closure of %d parameters applied to %d values" % (len(names), len(args)))
+        env2 = dict(cenv)
+        for n, a in zip(names, args):
+            if n != "_":
+                env2[n] = a
+        box = []
+
+        def kk(v, _env):
+            box.append(v)
+            return "\0HOLE"
+        if self.ev(body, env2, kk, ctx) != "\0HOLE" or len(box) != 1:
+            raise Rs2vError("control flow inside a closure")
+        return box[0]
+
+    # ---- calls
+    def call(self, e, env, k, ctx):
+        if e[1][0] != "path":
+            raise Rs2vError("call of %r" % (e[1],))
+        name = "::".join(e[1][1])
+
+        def go(args, env2):
+            if name == "Some" and len(args) == 1:
+                a = args[0]
+                return k(VV(("option", a.ty), None if a.term is None else "(Some %s)" % a.term, known=("Some", a)), env2)
+            if name == "Ok" and len(args) == 1:
+                return k(VV(("lit_ok",), None, known=args[0]), env2)
+            if name == "Err" and len(args) == 1:
+                return k(VV(("lit_err",), None, known=args[0]), env2)
+            if ctx.get("slice") and name == self.cfg.get("slice_call"):
+                if len(args) != 1:
+                    raise Rs2vError("%s with %d arguments" % (name, len(args)))
+                self.unify(args[0].ty, self.cfg["slice_type"], "argument of %s" % name)
+                return self.term(args[0], "the argument of %s" % name)
+            h = self.cfg.get("calls", {}).get(name)
+            if h is not None:
+                return k(h(self, args, e[2], env2), env2)
+            if len(e[1][1]) == 1 and self.cfg.get("helper_src") and name != getattr(self, "me", None):
+                return self.inline(name, args, env2, k, ctx)
+            raise Rs2vError("call of %s, which the configuration does not describe" % name)
+        return self.ev_list(e[2], env, go, ctx)
+
+    def inline(self, name, args, env, k, ctx):
+        if self.depth >= 3:
+            raise Rs2vError("helper calls nested too deeply at %s" % name)
+        try:
+            params, body = parse_fn_v(self.cfg["helper_src"], name)
+        except Rs2vError as ex:
+            raise Rs2vError("call of %s, which is neither configured nor a free function of this file (%s)" % (name, ex))
+        if len(params) != len(args) or any(m for _p, m in params):
+            raise Rs2vError("helper %s: parameters" % name)
+        henv = {p: a for (p, _m), a in zip(params, args)}
+        self.depth += 1
+        ctx2 = dict(ctx)
+        ctx2["ret"] = lambda v, _henv: k(v, env)
+        ctx2["inlined"] = True
+        try:
+            return self.block(body, henv, lambda v, _henv: k(v, env), ctx2)
+        finally:
+            self.depth -= 1
+
+    def mcall(self, e, env, k, ctx):
+        recv_e, m, arg_es = e[1], e[2], e[3]
+
+        def go(vs, env2):
+            r, args = vs[0], vs[1:]
+            tg = self.tag(r.ty)
+            mu = self.cfg.get("mutators", {}).get((tg, m))
+            if mu is not None or (tg == "list" and m in V_LIST_MUT):
+                lv = self.lvalue(recv_e)
+                if lv is None or lv[0] not in env2:
+                    raise Rs2vError("%s on something that is not a local" % m)
+                env3 = env2
+                if mu is not None:
+                    new = mu(self, r, args)
+                else:
+                    new, env3 = self.list_mut(r, m, args, arg_es, env2)
+                return k(VV_UNIT, self.set(env3, lv, new))
+            h = self.cfg.get("methods", {}).get((tg, m))
+            if h is not None:
+                return k(h(self, r, args), env2)
+            return k(self.builtin(r, m, args, ctx), env2)
+        return self.ev_list([recv_e] + list(arg_es), env, go, ctx)
+
+    def list_mut(self, r, m, args, arg_es, env):
+        if m == "push" and len(args) == 1:
+            t = self.unify(r.ty, ("list", args[0].ty), "Vec::push")
+            return VV(t, "(%s ++ [%s])" % (self.term(r, "the vector"), self.term(args[0], "the pushed value"))), env
+        if m in ("append", "extend") and len(args) == 1:
+            t = self.unify(r.ty, args[0].ty, "Vec::%s" % m)
+            new = VV(t, "(%s ++ %s)" % (self.term(r, "the vector"), self.term(args[0], "the appended vector")))
+            if m == "append":
+                # Vec::append leaves the other vector empty
+                lv = self.lvalue(arg_es[0])
+                if arg_es[0][0] != "refmut" or lv is None or lv[0] not in env:
+                    raise Rs2vError("Vec::append of something that is not `&mut <local>`")
+                env = self.set(env, lv, VV(t, "[]"))
+            return new, env
+        if m == "clear" and not args:
+            return VV(r.ty, "[]"), env
+        raise Rs2vError("Vec::%s" % m)
+
+    def builtin(self, r, m, args, ctx):
+        tg = self.tag(r.ty)
+        if m in V_IDENTITY and not args and tg in ("str", "option", "list", "struct"):
+            return r
+        if tg == "str":
+            if m == "starts_with" and len(args) == 1 and args[0].ty in ("str", "char"):
+                p = args[0].term if args[0].ty == "str" else "[%s]" % args[0].term
+                return VV("bool", "(str_starts_with %s %s)" % (p, r.term))
+            if m == "is_empty" and not args:
+                return VV("bool", "(list_is_empty %s)" % r.term)
+            if m in ("eq", "ne") and len(args) == 1:
+                return self.binop("==" if m == "eq" else "!=", r, args[0])
+        if tg == "option" and not args and m in ("is_some", "is_none") and r.pats is None:
+            return VV("bool", "(opt_%s %s)" % (m, self.term(r, "the option")))
+        if tg == "list" and m == "is_empty" and not args:
+            return VV("bool", "(list_is_empty %s)" % self.term(r, "the vector"))
+        if tg == "res" and m == "map_err" and len(args) == 1 and args[0].ty == ("closure",):
+            clo, prev = args[0], r.errmap
+
+            def errmap(p):
+                return self.apply_closure(clo, [prev(p) if prev else p], ctx)
+            return VV(r.ty, r.term, errmap=errmap)
+        raise Rs2vError("method %s on a value of type %r" % (m, r.ty))
+
+    # ---- for x in LIST
+    def assigned(self, node, out):
+        if isinstance(node, list):
+            for x in node:
+                self.assigned(x, out)
+            return
+        if not isinstance(node, tuple) or not node:
+            return
+        if node[0] == "assign":
+            lv = self.lvalue(node[1])
+            out.add(lv[0] if lv else "?")
+        elif node[0] == "mcall" and (node[2] in V_LIST_MUT or any(m == node[2] for (_t, m) in self.cfg.get("mutators", {}))):
+            lv = self.lvalue(node[1])
+            if lv:
+                out.add(lv[0])
+        elif node[0] == "refmut":
+            lv = self.lvalue(node[1])
+            if lv:
+                out.add(lv[0])
+        for x in node[1:]:
+            if isinstance(x, (tuple, list)):
+                self.assigned(x, out)
+
+    def for_(self, s, env, cont, ctx):
+        pat, it, body = s[1], s[2], s[3]
+        if ctx.get("loop") or ctx.get("inlined"):
+            raise Rs2vError("a loop inside a loop or inside an inlined helper")
+        if self.loops or self.slice_term is not None:
+            raise Rs2vError("more than one loop")
+        ct = self.cfg["coq_type"]
+
+        def go(lst, env1):
+            if self.tag(lst.ty) != "list" or lst.ty[1] == "?":
+                raise Rs2vError("for over a value of type %r" % (lst.ty,))
+            names = set()
+            self.assigned(body, names)
+            if "?" in names:
+                raise Rs2vError("the loop assigns something that is not a local")
+            state = [n for n in env1 if n in names]
+            want = self.cfg["loop"]["state_types"]
+            got = [env1[n].ty for n in state]
+            if len(got) != len(want):
+                raise Rs2vError("the loop assigns %s (the model's loop carries %d value(s))" % (state, len(want)))
+            stys = [self.unify(g, w, "loop state") for g, w in zip(got, want)]
+            sty = ct(stys[0]) if len(stys) == 1 else "(%s)" % " * ".join(ct(t) for t in stys) if stys else "unit"
+            slice_mode = bool(self.cfg.get("slice_call"))
+            item = self.cfg["slice_item"] if slice_mode else self.fresh(pat)
+            benv = {}
+            for n, v in env1.items():
+                if n in state:
+                    continue
+                if v.fields is not None:
+                    benv[n] = self.close_struct(v)
+                else:
+                    benv[n] = v if (v.term is None or self.closed(v.term)) else VV(v.ty, POISON)
+            svars = ["st"] if len(state) == 1 else [self.fresh(n) for n in state]
+            for n, t, sv in zip(state, stys, svars):
+                benv[n] = VV(t, POISON if slice_mode else sv)
+            benv[pat] = VV(lst.ty[1], item)
+
+            def tup(env_):
+                if not state:
+                    return "tt"
+                ts = [self.term(env_[n], "the loop state") for n in state]
+                return ts[0] if len(ts) == 1 else "(%s)" % ", ".join(ts)
+            if slice_mode:
+                def no_end(*_a):
+                    raise Rs2vError("a path through the loop body ends without calling %s" % self.cfg["slice_call"])
+                self.slice_term = self.block(body, benv, no_end, {"loop": True, "slice": True, "ret": no_end})
+                raise _SliceDone()
+            bctx = {"loop": True, "ret": lambda v, _e: "LRet (%s)" % self.fn_result(v)}
+            bterm = self.block(body, benv, lambda _v, env_: "LCont %s" % tup(env_), bctx)
+            if len(state) > 1:
+                bterm = "let '(%s) := st in\n%s" % (", ".join(svars), bterm)
+            name = "%s_body" % self.cfg["coq_name"]
+            rty = self.cfg["result"]["coq"]
+            self.loops.append((name, "Definition %s%s (st : %s) (%s : %s) : lstep (%s) (%s) :=\n%s.\n" % (
+                name, (" " + self.cfg["fn_params"]) if self.cfg.get("fn_params") else "", sty, item, ct(lst.ty[1]), sty, rty, bterm)))
+            after = [self.fresh(n) for n in state]
+            env2 = dict(env1)
+            for n, t, a in zip(state, stys, after):
+                env2[n] = VV(t, a)
+            apat = "_" if not state else after[0] if len(after) == 1 else "(%s)" % ", ".join(after)
+            r = self.fresh("r")
+            return "match for_each_r (%s%s) %s %s with\n| LRet %s => %s\n| LCont %s =>\n%s\nend" % (
+                name, (" " + self.cfg["fn_args"]) if self.cfg.get("fn_args") else "", self.term(lst, "the list"),
+                tup(env1), r, r, apat, cont(env2))
+        return self.ev(it, env, go, ctx)
+
+    def close_struct(self, v):
+        if v.fields is not None:
+            return VV(v.ty, None, {f: self.close_struct(x) for f, x in v.fields.items()})
+        return v if (v.term is None or self.closed(v.term)) else VV(v.ty, POISON)
+
+
+# =================================================================================================
+# Variable-command wave, builder B22 (first client: lib/gen/var_gen.py — the `run` functions of the variable commands
+# duckscript_sdk/src/sdk/std/var/*/mod.rs, of the scope commands sdk/std/scope/*/mod.rs, and push / pop of
+# duckscript_sdk/src/utils/scope.rs).  Purely additive: nothing above this line is changed.  The parser extends PCmd, the
+# executor extends FnCmd (continuation passing, decision trees with explicit panic arms) by MUTABLE STATE.
+#
+#   PVar / parse_var_run / parse_var_fn
+#       `[a, b]` array literals (`&[]`), open ranges `a..` (inside an index: `&v[1..]`), closures with a block body
+#       `|x| { ..; e }`, tuple patterns in `for (k, v) in m`; otherwise the PCmd grammar
+#   FnVar   executor on top of FnCmd:
+#     * state CELLS (cfg["cells"]: name -> CmdV): the parts of the state a command can change (`context.variables`, the scope
+#       stack inside `context.state`), plus one cell per `let mut` local of a cell type (cfg["cell_types"]: HashMap / Vec
+#       locals).  A value of type ("ref", cell) denotes the cell; reading it gives the cell's CURRENT term.  The cells live
+#       on the executor and are path sensitive: every sub-execution (ex / block / stmts) restores the cells it found when it
+#       returns — in continuation-passing style the rest of the path has been emitted by then — so both branches of an `if`
+#       / `match` start from the state at the branch point and every leaf (cfg["finish"]) sees the state of ITS path;
+#     * effects are given by the configuration: cfg["methods"] handlers may call fn.write(cell, value); handlers that BRANCH
+#       (Vec::pop, a callee whose result is a sum) are cfg["cps_methods"] / cfg["cps_paths"]: f(fn, .., k, ..) -> term, they
+#       call k once per branch with a statically known value;
+#     * `for x in LIST { body }` / `for (k, v) in MAP { body }` whose body changes exactly ONE cell and has no `return` / panic
+#       is `foldl (fun acc x => body') <cell> LIST` (stdpp foldl; the items of a map are cfg["map_items"]); the body is a
+#       decision tree whose leaves are the new value of that cell; the other cells are read as they are before the loop;
+#     * `match` on a value of an enum type whose constructor is statically known (cfg: a CmdV with known = (Ctor, payload),
+#       e.g. the elements of the scope stack are StateValue::Any of a variable map) selects the arm here;
+#     * `v[n..]` on a list is `match vec_slice_from v n with None => <panic> | Some s => ..`;
+#     * a pure expression (closure bodies, loop iterators) must leave the cells alone.
+#   Everything not understood raises Rs2vError.
+class PVar(PCmd):
+    def expr(self, lvl=0, no_struct=False):
+        if lvl == len(self.PREC):
+            return self.unary(no_struct)
+        l = self.expr(lvl + 1, no_struct)
+        while self.peek()[0] == "op" and self.peek()[1] in self.PREC[lvl]:
+            op = self.eat("op")
+            if op == ".." and self.peek() in (("op", "]"), ("op", ")")):
+                l = ("rangefrom", l)
+                continue
+            r = self.expr(lvl + 1, no_struct)
+            l = ("bin", op, l, r)
+        return l
+
+    def unary(self, no_struct):
+        if self.at("op", "|") or self.at("op", "||"):
+            names = []
+            if not self.opt("op", "||"):
+                self.eat("op", "|")
+                while not self.at("op", "|"):
+                    self.opt("op", "&")
+                    self.opt("id", "mut")
+                    names.append(self.eat("id"))
+                    if self.at("op", ":"):
+                        raise Rs2vError("closure parameter with a type annotation")
+                    if not self.opt("op", ","):
+                        break
+                self.eat("op", "|")
+            if self.at("op", "{"):
+                return ("closure", names, self.block())
+            return ("closure", names, self.expr(no_struct=no_struct))
+        return super().unary(no_struct)
+
+    def atom(self, no_struct):
+        if self.at("op", "["):
+            self.i += 1
+            return ("array", self.args("]"))
+        return super().atom(no_struct)
+
+    def stmt(self):
+        if self.at("id", "for") and self.peek(1) == ("op", "("):
+            self.i += 2
+            names = []
+            while not self.at("op", ")"):
+                self.opt("op", "&")
+                self.opt("id", "ref")
+                self.opt("id", "mut")
+                names.append(self.eat("id"))
+                if not self.opt("op", ","):
+                    break
+            self.eat("op", ")")
+            self.eat("id", "in")
+            it = self.expr(no_struct=True)
+            return ("for", ("tuplepat", names), it, self.block())
+        return super().stmt()
+
+
+def parse_var_run(src, trait="Command", type_name="CommandImpl", name="run"):
+    """`fn run` of `impl Command for CommandImpl { .. }`, PVar grammar -> (receiver, [(param, type text)], body)"""
+    ms = list(re.finditer(r"^\s*impl\s+%s\s+for\s+%s\s*\{" % (re.escape(trait), re.escape(type_name)), src, re.M))
+    if len(ms) != 1:
+        raise Rs2vError("impl %s for %s: %d blocks" % (trait, type_name, len(ms)))
+    body = balanced_block(src, ms[0].end() - 1)
+    fs = list(re.finditer(r"\bfn\s+%s\s*\(" % re.escape(name), body))
+    if len(fs) != 1:
+        raise Rs2vError("fn %s: %d definitions in impl %s for %s" % (name, len(fs), trait, type_name))
+    p = PVar(lex(body[fs[0].start():], stop_after_item=True))
+    _n, params, blk = p.fn()
+    return p.receiver, params, blk
+
+
+def parse_var_fn(src, name):
+    """a free function of the file, PVar grammar -> ([(param, type text)], return type text, body)"""
+    ms = list(re.finditer(r"^(?:pub(?:\([a-z]+\))?\s+)?fn\s+%s\s*\(" % re.escape(name), src, re.M))
+    if len(ms) != 1:
+        raise Rs2vError("fn %s: %d definitions" % (name, len(ms)))
+    p = PVar(lex(src[ms[0].start():], stop_after_item=True))
+    _n, params, body = p.fn()
+    if p.receiver is not None:
+        raise Rs2vError("fn %s has a receiver" % name)
+    return params, p.ret_type, body
+
+
+class FnVar(FnCmd):
+    """cfg keys in addition to FnCmd's:
+      cells        {cell name: CmdV}                        initial state
+      cell_types   f(ty) -> bool                            a `let mut` local of such a type becomes a cell
+      cps_methods  {(type tag, method): f(fn, recv CmdV, [CmdV], turbofish, expect, k) -> term}
+      cps_paths    {rust path string: f(fn, [CmdV], expect, k) -> term}
+      map_items    {map ty: (key ty, value ty, fmt % map term)}   the list of pairs a `for (k, v) in MAP` runs over
+    The type tag of a ("ref", cell) receiver is "&" + the tag of the cell's type; a method that is not configured for the
+    reference is looked up for the cell's current value (read-only methods)."""
+
+    def __init__(self, cfg):
+        super().__init__(cfg)
+        self.st = dict(cfg.get("cells", {}))
+        self.effects = 0
+        self.in_fold = 0
+        self.ncells = 0
+
+    # ---- cells
+    def cell_of(self, v):
+        return v.ty[1] if isinstance(v.ty, tuple) and v.ty[0] == "ref" else None
+
+    def cur(self, v):
+        c = self.cell_of(v)
+        if c is None:
+            return v
+        if c not in self.st:
+            raise Rs2vError("state component %s is not available here" % c)
+        return self.st[c]
+
+    def write(self, cell, v):
+        if cell not in self.st:
+            raise Rs2vError("state component %s is not available here" % cell)
+        self.st = dict(self.st)
+        self.st[cell] = v
+        self.effects += 1
+
+    def new_cell(self, base, v):
+        self.ncells += 1
+        name = "%s#%d" % (base, self.ncells)
+        self.st = dict(self.st)
+        self.st[name] = v
+        return name
+
+    def guarded(self, f):
+        saved = self.st
+        try:
+            return f()
+        finally:
+            self.st = saved
+
+    def panic(self):
+        if self.in_fold:
+            raise Rs2vError("an operation that can panic inside a loop body")
+        return super().panic()
+
+    def pure(self, e, env, ctx, expect=None):
+        n = self.effects
+        v = super().pure(e, env, ctx, expect)
+        if self.effects != n:
+            raise Rs2vError("a state change where a plain value is required")
+        return v
+
+    # ---- blocks, statements
+    def block(self, b, env, k, ctx, expect=None):
+        return self.guarded(lambda: FnCmd.block(self, b, env, k, ctx, expect))
+
+    def stmts(self, ss, tail, env, k, ctx, expect):
+        return self.guarded(lambda: self.stmts1(ss, tail, env, k, ctx, expect))
+
+    def stmts1(self, ss, tail, env, k, ctx, expect):
+        if not ss:
+            return FnCmd.stmts(self, ss, tail, env, k, ctx, expect)
+        s, rest = ss[0], ss[1:]
+        kind = s[0]
+        if kind == "let" and len(s) > 4 and s[4]:
+            name, e = s[1], s[2]
+            ty = self.ty_of_text(s[3])
+
+            def k_let(v):
+                if ty is not None:
+                    v = self.ascribe(v, ty)
+                env2 = dict(env)
+                v = self.cur(v)
+                if self.cfg["cell_types"](v.ty):
+                    self.declare(env2, name, CmdV(("ref", self.new_cell(name, v))), True)
+                else:
+                    self.declare(env2, name, v, True)
+                return self.stmts(rest, tail, env2, k, ctx, expect)
+            return self.ex(e, env, k_let, ctx, ty)
+        if kind == "for":
+            self.for_fold(s, env, ctx)
+            return self.stmts(rest, tail, env, k, ctx, expect)
+        if kind == "expr":
+            def k_unit(v):
+                if v.ty not in ("unit", "discard"):
+                    raise Rs2vError("value of type %r discarded" % (v.ty,))
+                return self.stmts(rest, tail, env, k, ctx, expect)
+            return self.ex(s[1], env, k_unit, ctx, "unit")
+        return FnCmd.stmts(self, ss, tail, env, k, ctx, expect)
+
+    def iterable(self, v):
+        """(item type, list term) of what a `for` runs over"""
+        v = self.cur(v)
+        mi = self.cfg.get("map_items", {}).get(v.ty)
+        if mi is not None:
+            return ("pair", mi[0], mi[1]), mi[2] % v.term
+        if isinstance(v.ty, tuple) and v.ty[0] in ("list", "iter") and v.term is not None:
+            return v.ty[1], v.term
+        raise Rs2vError("for over %r" % (v.ty,))
+
+    def for_fold(self, s, env, ctx):
+        """for PAT in ITER { body } -> the one cell the body changes := foldl (fun acc x => body') <cell> <items>"""
+        _, pat, it, body = s
+        if self.in_fold:
+            raise Rs2vError("nested loop")
+        item_ty, lterm = self.iterable(self.pure(it, env, ctx))
+        x = self.fresh("x")
+        env_b = self.enter(env)
+        if isinstance(pat, tuple) and pat[0] == "tuplepat":
+            if not (isinstance(item_ty, tuple) and item_ty[0] == "pair" and len(pat[1]) == 2):
+                raise Rs2vError("tuple pattern over items of type %r" % (item_ty,))
+            self.declare(env_b, pat[1][0], CmdV(item_ty[1], "%s.1" % x))
+            self.declare(env_b, pat[1][1], CmdV(item_ty[2], "%s.2" % x))
+        else:
+            if isinstance(item_ty, tuple) and item_ty[0] == "pair":
+                raise Rs2vError("a map iterated without a (key, value) pattern")
+            self.declare(env_b, pat, CmdV(item_ty, x))
+
+        def no_return(_v):
+            raise Rs2vError("return inside a loop")
+        ctx_b = {"ret": no_return, "ret_type": None}
+        saved = self.st
+        eff = self.effects
+
+        def run(cells, kleaf):
+            self.st = cells
+            self.in_fold += 1
+            try:
+                return self.block(body, env_b, kleaf, ctx_b, None)
+            finally:
+                self.in_fold -= 1
+                self.st = saved
+        # pass 1: which cells does the body change?  (cells without a term are static bookkeeping: they must not change)
+        accs = {c: self.fresh("acc") for c, v in saved.items() if v.term is not None}
+        changed, leaf_ty = set(), {}
+
+        def k1(v):
+            if v.ty not in ("unit", "discard"):
+                raise Rs2vError("loop body with a value of type %r" % (v.ty,))
+            for c, cv in saved.items():
+                if c not in accs:
+                    if self.st.get(c) is not cv:
+                        raise Rs2vError("loop body: %s changes" % c)
+                elif c not in self.st or self.st[c].term != accs[c]:
+                    changed.add(c)
+                    leaf_ty[c] = self.st[c].ty
+            return ""
+        names1 = dict(self.names)
+        run({c: (CmdV(v.ty, accs[c]) if c in accs else v) for c, v in saved.items()}, k1)
+        self.names = names1
+        if len(changed) != 1:
+            raise Rs2vError("a loop whose body changes %d state components" % len(changed))
+        (c,) = changed
+        acc = accs[c]
+
+        def k2(v):
+            for d, dv in saved.items():
+                if d != c and self.st.get(d) is not dv:
+                    raise Rs2vError("loop body: inconsistent state change")
+            return self.st[c].term
+        cells = dict(saved)
+        cells[c] = CmdV(saved[c].ty, acc)
+        body_term = run(cells, k2)
+        self.effects = eff
+        ty = leaf_ty[c]
+        out = CmdV(ty, "(foldl (fun (%s : %s) (%s : %s) =>\n%s) %s %s)" % (
+            acc, self.cfg["coq_type"](ty), x, self.cfg["coq_type"](item_ty), cmd_indent(body_term, 4), saved[c].term, lterm))
+        self.write(c, out)
+
+    # ---- expressions
+    def ex(self, e, env, k, ctx, expect=None):
+        return self.guarded(lambda: self.ex1(e, env, k, ctx, expect))
+
+    def ex1(self, e, env, k, ctx, expect):
+        kind = e[0]
+        if kind == "%value":
+            return k(e[1])
+        if kind == "array":
+            if e[1]:
+                raise Rs2vError("array literal with elements")
+            inner = expect[1] if isinstance(expect, tuple) and expect[0] == "list" else None
+            return k(CmdV(("list", inner), "[]"))
+        if kind == "rangefrom":
+            raise Rs2vError("open range outside an index")
+        if kind == "index" and e[2][0] == "rangefrom":
+            return self.slice_from(e, env, k, ctx)
+        return FnCmd.ex(self, e, env, k, ctx, expect)
+
+    def slice_from(self, e, env, k, ctx):
+        lo = e[2][1]
+        if lo[0] != "num":
+            raise Rs2vError("slice with a computed bound")
+
+        def k_base(b):
+            b = self.cur(b)
+            tag = b.ty[0] if isinstance(b.ty, tuple) else b.ty
+            if tag not in ("list", "args") or b.term is None:
+                raise Rs2vError("slice of a value of type %r" % (b.ty,))
+            elem = b.ty[1] if tag == "list" else "str"
+            x = self.fresh("s")
+            return self.match2("vec_slice_from %s %d" % (b.term, lo[1]), "None", self.panic(),
+                               "Some %s" % x, k(CmdV(("list", elem), x)))
+        return self.ex(e[1], env, k_base, ctx, None)
+
+    def match(self, e, env, k, ctx, expect):
+        arms = e[2]
+
+        def k_s(v):
+            v = self.cur(v)
+            t = v.ty
+            if isinstance(t, tuple) and t[0] in ("opt", "res"):
+                # FnCmd's treatment, on the value already computed
+                return FnCmd.match(self, ("match", ("%value", v), arms), env, k, ctx, expect)
+            if v.known is None or not isinstance(v.known, tuple):
+                raise Rs2vError("match on a value of type %r whose constructor is not known" % (t,))
+            ctor, payload = v.known[0], list(v.known[1:])
+            for pat, body in arms:
+                env2 = self.enter(env)
+                if pat[0] == "wild":
+                    return self.block(body, env2, k, ctx, expect) if body[0] == "block" else self.ex(body, env2, k, ctx, expect)
+                if pat[0] == "ctor" and pat[1][-1] == ctor and (len(pat[1]) > 1 or pat[2]):
+                    if len(pat[2]) != len(payload):
+                        raise Rs2vError("pattern %s with %d sub-patterns" % ("::".join(pat[1]), len(pat[2])))
+                    for n, p in zip(pat[2], payload):
+                        if n is not None:
+                            self.declare(env2, n, p)
+                    return self.block(body, env2, k, ctx, expect) if body[0] == "block" else self.ex(body, env2, k, ctx, expect)
+                if pat[0] != "ctor":
+                    raise Rs2vError("pattern %r" % (pat,))
+            raise Rs2vError("match without an arm for %s" % ctor)
+        hint = self.parse_hint(e[1], arms, expect)
+        return self.ex(e[1], env, k_s, ctx, hint)
+
+    def call(self, e, env, k, ctx, expect):
+        if e[1][0] == "path":
+            p = "::".join(e[1][1])
+            h = self.cfg.get("cps_paths", {}).get(p)
+            if h is not None:
+                return self.seq(e[2], env, lambda vs: h(self, vs, expect, k), ctx)
+        return super().call(e, env, k, ctx, expect)
+
+    def tag_of(self, r):
+        c = self.cell_of(r)
+        if c is not None:
+            t = self.cur(r).ty
+            return "&" + (t[0] if isinstance(t, tuple) else t)
+        return r.ty[0] if isinstance(r.ty, tuple) else r.ty
+
+    def mcall(self, e, env, k, ctx, expect):
+        recv, name, args = e[1], e[2], e[3]
+        tf = e[4] if len(e) > 4 else None
+
+        def k_r(r):
+            tag = self.tag_of(r)
+            for rr, tg in ((r, tag),) + (((self.cur(r), tag[1:]),) if tag.startswith("&") else ()):
+                h = self.cfg.get("cps_methods", {}).get((tg, name))
+                if h is not None:
+                    return self.seq(args, env, lambda vs, rr=rr, h=h: h(self, rr, vs, tf, expect, k), ctx)
+                h = self.cfg["methods"].get((tg, name))
+                if h is not None:
+                    return self.seq(args, env, lambda vs, rr=rr, h=h: k(h(self, rr, vs, tf, expect)), ctx)
+            return FnCmd.mcall(self, ("mcall", ("%value", self.cur(r)), name, args, tf), env, k, ctx, expect)
+        if recv[0] == "%value":
+            return k_r(recv[1])
+        rexp = ("wrap", expect) if name == "unwrap" and expect is not None else None
+        return self.ex(recv, env, k_r, ctx, rexp)
+
+
+# =================================================================================================
+# Fourth wave, builder B19 (client: lib/gen/findcmds_gen.py — get_start, get_end, find_commands of
+# duckscript_sdk/src/utils/instruction_query.rs).  Purely additive: nothing above this line is changed; the classes below
+# extend PIdx / FnIdx.
+#
+#   PFc    parser:   a block-like expression (`if`, `if let`, `match`, `{ .. }`) is never applied or indexed: the `()` that
+#                    follows `if .. { .. } else { .. }` as the value of the enclosing block is a unit value, not a call
+#                    (the P grammar would read `if .. {..} (..)` as a call).
+#   FnFc   executor: * `for x in a..b` whose loop variable IS used: the body becomes a definition state -> nat -> step, the
+#                      driver (cfg loop.driver) gets the iteration count `b - a` (fixed at loop entry, as Rust's Range), the
+#                      first index `a` and the packed state (cfg loop.kind = "range");
+#                    * `continue` inside the loop body (statement or value of a block / match arm);
+#                    * struct literals of a configured struct (`Positions { middle: vec![], end: 0 }`) as a struct-valued
+#                      local whose fields are separate symbolic values (so `positions.middle.push(..)`, `positions.end = ..`
+#                      work and `Some(positions)` is re-packed with the struct's constructor);
+#                    * a struct held in ONE Coq variable (an element read with `v[i]`, a pattern variable) whose fields are
+#                      read through the configured projections (`instruction.instruction_type`, `sub_positions.end`);
+#                    * `match` on a value of a DATA-carrying enum (cfg data_enums: each variant is unit or carries one
+#                      struct, spelled as a Coq constructor whose arguments are the struct's fields): one Coq arm per
+#                      model constructor, `_` arms are expanded, the payload is bound as a struct-valued pattern variable;
+#                    * `format!` error texts with `{:?}` placeholders;
+#                    * functions whose result is a plain value (cfg value_result = its type), e.g. get_start / get_end.
+#   Everything not understood raises Rs2vError.
+class PFc(PIdx):
+    def postfix(self, e):
+        if e[0] in ("if", "iflet", "match", "block") and self.peek() in (("op", "("), ("op", "[")):
+            return e
+        return super().postfix(e)
+
+
+def parse_fn_fc(src, name):
+    """like parse_fn_idx, with the PFc grammar"""
+    m = re.search(r"(?:pub(?:\([a-z]+\))?\s+)?fn\s+%s\s*\(" % re.escape(name), src)
+    if not m:
+        raise Rs2vError("fn %s not found" % name)
+    p = PFc(lex(src[m.start():], stop_after_item=True))
+    n, params, body = p.fn()
+    return params, body
+
+
+CONTINUE = ("path", ["continue"])
+
+
+class FnFc(FnIdx):
+    """cfg keys in addition to FnIdx's:
+      data_enums    {Rust enum name: [{"rust": variant, "coq": constructor, "payload": None | struct name}]}; the struct's
+                    cfg structs entry gives the fields in the order of the Coq constructor's arguments
+      structs       as Fn2; "proj" makes a struct held in one Coq variable readable, "mk" makes it re-packable
+      loop          for `for x in a..b`: {"kind": "range", "state": [dotted names], "state_type": T, "pack": fmt, "driver": name}
+      value_result  type of the function's result when it is a plain value (no Ok / Err)
+    """
+
+    # ---- structs held in one Coq variable
+    def _expand(self, v):
+        if is_struct(v[0]) and isinstance(v[1], str) and v[1] != POISON and POISON not in v[1]:
+            sc = self.cfg.get("structs", {}).get(v[0][1])
+            if sc and "proj" in sc:
+                return self.struct_of_term(v[0], v[1])
+        return v
+
+    def has(self, env, dotted):
+        parts = dotted.split(".")
+        if parts[0] not in env:
+            return False
+        v = env[parts[0]]
+        for p in parts[1:]:
+            v = self._expand(v)
+            if not (is_struct(v[0]) and isinstance(v[1], dict) and p in v[1]):
+                return False
+            v = v[1][p]
+        return True
+
+    def get(self, env, dotted):
+        parts = dotted.split(".")
+        if parts[0] not in env:
+            raise Rs2vError("unknown variable %s" % parts[0])
+        v = env[parts[0]]
+        for p in parts[1:]:
+            v = self._expand(v)
+            if not (is_struct(v[0]) and isinstance(v[1], dict) and p in v[1]):
+                raise Rs2vError("no field %s in %s" % (p, dotted))
+            v = v[1][p]
+        return v
+
+    # ---- struct literals
+    def struct_lit(self, e, env):
+        name = "::".join(e[1])
+        sc = self.cfg.get("structs", {}).get(name)
+        if not sc or "mk" not in sc:
+            return None
+        given = {}
+        for f, fe in e[2]:
+            if f in given:
+                raise Rs2vError("field %s given twice in %s { .. }" % (f, name))
+            given[f] = fe
+        if sorted(given) != sorted(f for f, _t in sc["fields"]):
+            raise Rs2vError("struct literal %s with the fields %s" % (name, sorted(given)))
+        out = {}
+        for f, ft in sc["fields"]:
+            fe = given[f]
+            while fe[0] in ("ref", "refmut"):
+                fe = fe[1]
+            if fe[0] == "num":
+                if ft not in (Ty.NAT, Ty.NUM_N, Ty.INT_Z):
+                    raise Rs2vError("numeric literal for the field %s : %s" % (f, ft))
+                out[f] = (ft, self.num(fe, ft, env))
+            elif fe[0] == "macro" and fe[1] == "vec" and not fe[2]:
+                if not self.is_list(ft):
+                    raise Rs2vError("vec![] for the field %s : %s" % (f, ft))
+                out[f] = (ft, "[]")
+            else:
+                vt, term = self.value(fe, env)
+                if vt != ft:
+                    raise Rs2vError("field %s : %s initialised with a %s" % (f, ft, vt))
+                out[f] = (ft, term)
+        return (T_struct(name), out)
+
+    def value(self, e, env):
+        e0 = e
+        while e0[0] in ("ref", "refmut"):
+            e0 = e0[1]
+        if e0[0] == "struct":
+            r = self.struct_lit(e0, env)
+            if r is not None:
+                return r
+        return super().value(e, env)
+
+    def type_of(self, e, env):
+        if e[0] == "struct":
+            sc = self.cfg.get("structs", {}).get("::".join(e[1]))
+            if sc and "mk" in sc:
+                return T_struct("::".join(e[1]))
+        return super().type_of(e, env)
+
+    def ex(self, e, env):
+        if e[0] == "struct":
+            r = self.struct_lit(e, env)
+            if r is not None:
+                return self.struct_term(r[0], r[1])
+        if e == CONTINUE and "continue" not in env:
+            raise Rs2vError("`continue` in a position where it cannot be translated")
+        return super().ex(e, env)
+
+    # ---- results
+    def err_payload(self, x, env):
+        y = x
+        while y[0] == "mcall" and y[2] in ("to_string", "to_owned", "clone") and not y[3]:
+            y = y[1]
+        texts = self.cfg.get("err_texts")
+        if texts is not None and y[0] == "macro" and y[1] == "format" and y[2] and y[2][0][0] == "str":
+            key = y[2][0][1]
+            n = len(re.findall(r"\{(?::\?)?\}", key))
+            if n != len(y[2]) - 1 or key.count("{") != n or key.count("}") != n:
+                raise Rs2vError("format string %r" % key)
+            for a in y[2][1:]:
+                self.ex(a, env)                 # the interpolated values must be pure expressions
+            if key not in texts:
+                raise Rs2vError("error text %r has no model error code" % key)
+            return texts[key]
+        return super().err_payload(x, env)
+
+    def result(self, e, env, ctx):
+        vt = self.cfg.get("value_result")
+        if vt is not None:
+            if ctx.get("loop"):
+                raise Rs2vError("return inside a loop of a value function")
+
+            def fin(e2, env2):
+                if e2[0] == "num":
+                    return self.num(e2, vt, env2)
+                t = self.type_of(e2, env2)
+                if t != vt:
+                    raise Rs2vError("result of type %s, expected %s" % (t, vt))
+                return self.ex(e2, env2)
+            return self.hoist(e, env, ctx, fin)
+        return super().result(e, env, ctx)
+
+    # ---- `continue`
+    def is_continue(self, e, env):
+        return e == CONTINUE and "continue" not in env
+
+    def do_continue(self, env, ctx):
+        if not ctx.get("loop") or self._pack is None:
+            raise Rs2vError("continue outside a loop")
+        return self.cfg["step"]["cont"] % self._pack(env)
+
+    def effect(self, e, env, cont, ctx):
+        if self.is_continue(e, env):
+            return self.do_continue(env, ctx)
+        return super().effect(e, env, cont, ctx)
+
+    def tail(self, e, env, k, ctx):
+        if self.is_continue(e, env):
+            return self.do_continue(env, ctx)
+        return super().tail(e, env, k, ctx)
+
+    # ---- match on a data-carrying enum
+    def match_(self, e, env, k, ctx):
+        s = e[1]
+        while s[0] in ("ref", "refmut"):
+            s = s[1]
+        lv = self.lvalue(s)
+        if lv is not None and self.has(env, lv):
+            t = self.get(env, lv)[0]
+            if isinstance(t, str) and t in self.cfg.get("data_enums", {}):
+                return self.match_data(lv, e[2], env, k, ctx)
+        return super().match_(e, env, k, ctx)
+
+    def match_data(self, lv, arms, env, k, ctx):
+        t, term = self.get(env, lv)
+        if isinstance(term, dict):
+            raise Rs2vError("match on %s" % lv)
+        self.plain(term, lv)
+        variants = self.cfg["data_enums"][t]
+        named, wild = self.classify_arms(arms)
+        known = set("%s::%s" % (t, v["rust"]) for v in variants)
+        for name in named:
+            if name not in known:
+                raise Rs2vError("match arm %s on the enum %s" % (name, t))
+        out = ["match %s with" % term]
+        for v in variants:
+            key = "%s::%s" % (t, v["rust"])
+            fields = self.cfg["structs"][v["payload"]]["fields"] if v["payload"] else []
+            if key in named:
+                subs, body = named[key]
+                env2 = dict(env)
+                if v["payload"] is None:
+                    if subs:
+                        raise Rs2vError("pattern %s with fields" % key)
+                    pat = v["coq"]
+                else:
+                    if len(subs) != 1:
+                        raise Rs2vError("pattern %s with %d fields" % (key, len(subs)))
+                    if subs[0] and subs[0] in env:
+                        raise Rs2vError("pattern variable %s shadows a local" % subs[0])
+                    vs = [self.newvar(f) for f, _ft in fields]
+                    pat = " ".join([v["coq"]] + vs)
+                    if subs[0]:
+                        env2[subs[0]] = (T_struct(v["payload"]), {f: (ft, x) for (f, ft), x in zip(fields, vs)})
+                out += ["| %s =>" % pat, self.arm(body, env2, k, ctx)]
+            elif wild is not None:
+                out += ["| %s =>" % " ".join([v["coq"]] + ["_"] * len(fields)), self.arm(wild, dict(env), k, ctx)]
+            else:
+                raise Rs2vError("no match arm for %s" % key)
+        out.append("end")
+        return "\n".join(out)
+
+    # ---- `for x in a..b` with the loop variable in use
+    def loop2(self, s, env, cont, ctx):
+        lc = self.cfg.get("loop")
+        if s[0] == "for" and lc and lc.get("kind") == "range":
+            return self.loop_range(s, env, cont, ctx)
+        return super().loop2(s, env, cont, ctx)
+
+    def loop_range(self, s, env, cont, ctx):
+        if ctx.get("loop"):
+            raise Rs2vError("nested loop")
+        if self.loops:
+            raise Rs2vError("more than one loop")
+        lc = self.cfg["loop"]
+        pat, it, body = s[1], s[2], s[3]
+        if not (it[0] == "bin" and it[1] == ".."):
+            raise Rs2vError("loop iterator %r" % (it,))
+        bounds = []
+        for b in (it[2], it[3]):
+            if b[0] != "num" and self.type_of(b, env) != Ty.NAT:
+                raise Rs2vError("range bound of type %s" % (self.type_of(b, env),))
+            bounds.append(self.plain(self.num(b, Ty.NAT, env), "range bound"))
+        lo, hi = bounds
+        if pat in env or pat == "_":
+            raise Rs2vError("loop variable %s" % pat)
+        state = lc["state"]
+        for n in state:
+            if not self.has(env, n) or isinstance(self.get(env, n)[1], dict):
+                raise Rs2vError("loop state variable %s is not in scope" % n)
+        for a in sorted(self.assigned_names(body)):
+            root = a.split(".")[0]
+            if a == "?":
+                raise Rs2vError("the loop assigns to something that is not a variable")
+            if root == pat:
+                raise Rs2vError("the loop assigns its own variable")
+            if root in env and not any(a == n or a.startswith(n + ".") for n in state):
+                raise Rs2vError("the loop assigns %s, which is not part of the configured state (%s)" % (a, ", ".join(state)))
+
+        def close(tv):
+            t, term = tv
+            if isinstance(term, dict):
+                return (t, {f: close(x) for f, x in term.items()})
+            return (t, term if (term != POISON and self.is_closed(term)) else POISON)
+        benv = {n: close(tv) for n, tv in env.items()}
+        svars = []
+        for n in state:
+            v = self.newvar(n)
+            svars.append(v)
+            benv = self.set(benv, n, (self.get(env, n)[0], v))
+        name = "%s_body" % self.cfg["coq_name"]
+        call = "(%s%s)" % (name, (" " + self.cfg["fn_args"]) if self.cfg.get("fn_args") else "")
+        fmt = lc["pack"]
+
+        def pack(env_):
+            return fmt % tuple(self.plain(self.get(env_, n)[1], n) for n in state)
+        item = self.newvar(pat)
+        benv[pat] = (Ty.NAT, item)
+        stp = self.cfg["step"]
+        self._pack = pack
+        body_term = self.run(body[1], body[2], benv, lambda env2, v=None: stp["cont"] % pack(env2), {"loop": True})
+        self._pack = None
+        if POISON in body_term:
+            raise Rs2vError("the loop body uses a local of the enclosing function that is not available to it")
+        self.loops.append((name, "Definition %s%s (st : %s) (%s : nat) : %s :=\nmatch st with\n| %s =>\n%s\nend.\n" % (
+            name, (" " + self.cfg["fn_params"]) if self.cfg.get("fn_params") else "",
+            lc["state_type"], item, stp["type"], fmt % tuple(svars), body_term)))
+        avars = [self.newvar(n) for n in state]
+        env_after = env
+        for n, v in zip(state, avars):
+            env_after = self.set(env_after, n, (self.get(env, n)[0], v))
+        drive = "%s %s (%s - %s)%%nat %s %s" % (lc["driver"], call, hi, lo, lo, pack(env))
+        return self.cfg["res"]["consume"] % {"drive": drive, "pat": fmt % tuple(avars), "after": cont(env_after)}
+
+
+# =================================================================================================
+# Collections wave, builder B20 (first client: lib/gen/collections_gen.py — mutate_list / mutate_map / mutate_set of
+# duckscript_sdk/src/utils/state.rs and the `run` functions of the native collection commands).  Purely additive: nothing
+# above this line is changed.  The parser extends PCmd; the executor FnColl is a NEW class: continuation passing like
+# FnCmd, but with a HEAP threaded through the continuations, so that values behind `&mut` (the handle table, the Vec /
+# HashMap / HashSet a closure works on, `let mut` locals) can be mutated at any point of an expression.
+#
+#   PColl / parse_fn_coll / parse_run_coll
+#       generic functions `fn f<F>(..) -> T where F: FnMut(..) -> R { .. }` (the generic names and the text of the where
+#       clause are kept: the configuration checks the closure type), closures with a block body `|list| { .. }`, the open
+#       range `a..` inside an index (`&v[1..]`), `for (a, b) in e`; otherwise the PCmd grammar
+#   FnColl  symbolic executor.  Every Rust value is a CollV (type, Coq term, what is statically known: a literal text, the
+#       static prefix / suffix of a formatted message, a known constructor Some / None / Ok / Err / StateValue::X).
+#     * variables live in CELLS: env maps a name to a cell, the heap maps a cell to its current value; `&mut x` is a
+#       reference to x's cell, a method that mutates its receiver writes the cell (the cell of the variable, or the cell a
+#       reference points to); every continuation receives the heap as it is at that point, so every branch of a decision
+#       tree carries its own state and an early `return` sees all mutations made before it;
+#     * control flow (`if` / `else if`, `match` on Option / Result / StateValue, early `return`, `if let`, blocks as values,
+#       tuple `let`) copies the continuation into the branches; a `match` / `if` on a statically known value is decided
+#       here; a `match` on a StateValue taken from the handle table becomes a `match` over the MODEL's constructors (given
+#       by cfg["enums"]): several Rust arms that the model folds into one constructor (the ten non-collection arms ->
+#       HOther) are told apart by an inner `match <discriminator> ..` emitted only when the source names one of them;
+#     * every operation that can unwind is an explicit arm ending in ctx["panic"]: `v[<literal>]` on the argument vector,
+#       `&v[1..]`, `list[i]`, `list[i] = e`, `list.remove(i)`, checked `+` / `-` (cfg["arith"]) ...;
+#     * `A | B => e` is one arm per alternative; nested constructor patterns `Some(StateValue::List(l)) => e` are regrouped
+#       into a `match` per level (first-match order kept);
+#     * free helper functions (cfg["helpers"]) are inlined at the call (their `return` is the call's value);
+#     * a closure passed to a translated callee (cfg["callees"]) becomes a Coq function from the value behind its `&mut`
+#       parameter to `option (result * new value)` (None = the closure panicked); the call becomes a `match` on the
+#       callee's outcome whose Done arm continues with the new heap; a closure-typed PARAMETER is such a Coq function and
+#       calling it is a `match` with a panic arm;
+#     * `for x in ITER { .. }` whose body is straight-line and mutates exactly one cell is `fold_left (fun acc x => ..) ITER
+#       init` on that cell;
+#     * what a method / path / constructor / macro MEANS is the configuration's (cfg["methods"], cfg["paths"],
+#       cfg["ctors"], cfg["macros"], cfg["index"], cfg["index_assign"], cfg["iter"], cfg["compare"]): the executor knows
+#       nothing about std or the SDK; a call the configuration does not list is Rs2vError.
+#   Everything not understood raises Rs2vError.
+class PColl(PCmd):
+    generics = ()
+    where = None
+
+    def type_text_to(self, stops):
+        """skip a type up to one of the tokens in stops at depth 0, returning its text"""
+        a, depth = self.i, 0
+        while True:
+            t = self.peek()
+            if t[0] == "eof":
+                raise Rs2vError("eof in type")
+            if depth == 0 and t in stops:
+                break
+            if t[0] == "op" and t[1] in ("<", "(", "["):
+                depth += 1
+            elif t[0] == "op" and t[1] in (">", ")", "]"):
+                if depth == 0:
+                    break
+                depth -= 1
+            self.i += 1
+        return "".join(str(t[1]) for t in self.t[a:self.i])
+
+    def fn(self):
+        """fn name[<G, ..>]([&[mut]] self, params) [-> type] [where ..] block"""
+        while not self.at("id", "fn"):
+            if self.at("eof"):
+                raise Rs2vError("eof looking for fn")
+            self.i += 1
+        self.eat("id", "fn")
+        name = self.eat("id")
+        gens = []
+        if self.opt("op", "<"):
+            depth = 1
+            while depth:
+                t = self.peek()
+                if t[0] == "eof":
+                    raise Rs2vError("eof in generics")
+                if t == ("op", "<"):
+                    depth += 1
+                elif t == ("op", ">"):
+                    depth -= 1
+                elif t[0] == "id" and depth == 1:
+                    gens.append(t[1])
+                self.i += 1
+        self.generics = tuple(gens)
+        self.eat("op", "(")
+        if self.at("op", "&") and (self.peek(1) == ("id", "self") or
+                                   (self.peek(1) == ("id", "mut") and self.peek(2) == ("id", "self"))):
+            self.i += 1
+            self.receiver = "mut" if self.opt("id", "mut") else "ref"
+            self.eat("id", "self")
+            self.opt("op", ",")
+        elif self.at("id", "self") or (self.at("id", "mut") and self.peek(1) == ("id", "self")):
+            self.opt("id", "mut")
+            self.eat("id", "self")
+            self.receiver = "own"
+            self.opt("op", ",")
+        params = []
+        while not self.at("op", ")"):
+            self.opt("id", "mut")
+            pn = self.eat("id")
+            self.eat("op", ":")
+            params.append((pn, self.type_text_to((("op", ","),))))
+            self.opt("op", ",")
+        self.eat("op", ")")
+        if self.opt("op", "->"):
+            self.ret_type = self.type_text_to((("id", "where"), ("op", "{")))
+        if self.at("id", "where"):
+            a = self.i + 1
+            while not self.at("op", "{"):
+                if self.at("eof"):
+                    raise Rs2vError("eof in where clause")
+                self.i += 1
+            self.where = "".join(str(t[1]) for t in self.t[a:self.i])
+        return name, params, self.block()
+
+    def unary(self, no_struct):
+        if self.at("op", "|") or self.at("op", "||"):
+            names = []
+            if not self.opt("op", "||"):
+                self.eat("op", "|")
+                while not self.at("op", "|"):
+                    self.opt("op", "&")
+                    self.opt("id", "mut")
+                    names.append(self.eat("id"))
+                    if self.at("op", ":"):
+                        raise Rs2vError("closure parameter with a type annotation")
+                    if not self.opt("op", ","):
+                        break
+                self.eat("op", "|")
+            if self.at("op", "{"):
+                return ("closure", names, self.block())
+            return ("closure", names, self.expr(no_struct=no_struct))
+        return super().unary(no_struct)
+
+    def expr(self, lvl=0, no_struct=False):
+        if lvl < len(self.PREC) and self.PREC[lvl] == ("..",):
+            l = self.expr(lvl + 1, no_struct)
+            while self.at("op", ".."):
+                self.i += 1
+                if self.at("op", "]") or self.at("op", ")"):
+                    return ("rangefrom", l)
+                l = ("bin", "..", l, self.expr(lvl + 1, no_struct))
+            return l
+        return super().expr(lvl, no_struct)
+
+    def pattern(self):
+        """pattern [| pattern ..]; a sub-pattern of a constructor pattern may be a constructor pattern itself"""
+        p = self.pattern1()
+        if self.at("op", "|"):
+            alts = [p]
+            while self.opt("op", "|"):
+                alts.append(self.pattern1())
+            return ("or", alts)
+        return p
+
+    def pattern1(self):
+        a = self.peek()
+        if a == ("id", "_"):
+            self.i += 1
+            return ("wild",)
+        if a[0] in ("char", "str", "num"):
+            self.i += 1
+            return (a[0], a[1])
+        self.opt("id", "ref")
+        self.opt("id", "mut")
+        path = [self.eat("id")]
+        while self.opt("op", "::"):
+            path.append(self.eat("id"))
+        sub = []
+        if self.opt("op", "("):
+            while not self.at("op", ")"):
+                if self.opt("id", "_"):
+                    sub.append(None)
+                else:
+                    save = self.i
+                    self.opt("id", "ref")
+                    self.opt("id", "mut")
+                    t = self.peek()
+                    if t[0] == "id" and (t[1][:1].islower() or t[1][:1] == "_") and self.peek(1) not in (("op", "::"), ("op", "(")):
+                        sub.append(self.eat("id"))
+                    else:
+                        self.i = save
+                        sub.append(self.pattern1())
+                self.opt("op", ",")
+            self.eat("op", ")")
+        return ("ctor", path, sub)
+
+    def stmt(self):
+        if self.at("id", "for") and self.peek(1) == ("op", "("):
+            self.i += 2
+            names = []
+            while not self.at("op", ")"):
+                self.opt("id", "mut")
+                names.append(self.eat("id"))
+                if not self.opt("op", ","):
+                    break
+            self.eat("op", ")")
+            self.eat("id", "in")
+            it = self.expr(no_struct=True)
+            return ("for", tuple(names), it, self.block())
+        return super().stmt()
+
+
+def parse_fn_coll(src, name):
+    """a free function of a file, PColl grammar -> ([(param, type text)], return type text, generic names, where text, body)"""
+    ms = list(re.finditer(r"^(?:pub(?:\([a-z]+\))?\s+)?fn\s+%s\s*[<(]" % re.escape(name), src, re.M))
+    if len(ms) != 1:
+        raise Rs2vError("fn %s: %d definitions" % (name, len(ms)))
+    p = PColl(lex(src[ms[0].start():], stop_after_item=True))
+    _n, params, body = p.fn()
+    if p.receiver is not None:
+        raise Rs2vError("fn %s has a receiver" % name)
+    return params, p.ret_type, p.generics, p.where, body
+
+
+def parse_run_coll(src, trait="Command", type_name="CommandImpl", name="run"):
+    """`fn run` of `impl Command for CommandImpl { .. }`, PColl grammar -> (receiver, [(param, type text)], body)"""
+    ms = list(re.finditer(r"^\s*impl\s+%s\s+for\s+%s\s*\{" % (re.escape(trait), re.escape(type_name)), src, re.M))
+    if len(ms) != 1:
+        raise Rs2vError("impl %s for %s: %d blocks" % (trait, type_name, len(ms)))
+    body = balanced_block(src, ms[0].end() - 1)
+    fs = list(re.finditer(r"\bfn\s+%s\s*\(" % re.escape(name), body))
+    if len(fs) != 1:
+        raise Rs2vError("fn %s: %d definitions in impl %s for %s" % (name, len(fs), trait, type_name))
+    p = PColl(lex(body[fs[0].start():], stop_after_item=True))
+    _n, params, blk = p.fn()
+    return p.receiver, params, blk
+
+
+class _NoTerm:
+    def __str__(self):
+        raise Rs2vError("a value that exists only statically (no Coq term) is used where a term is needed")
+    __repr__ = __str__
+    __format__ = lambda self, spec: self.__str__()
+
+
+NO_TERM = _NoTerm()
+
+
+class CollV:
+    """a symbolic Rust value: ty (a name or a tuple: ("opt", T) / ("res", T, E) / ("list", T) / ("iter", T) / ("ref", cell) /
+    ("fn", ..)), term (Coq text or None for values that exist only statically), lit (text of a string literal, or the static
+    prefix of a formatted message whose static suffix is suf), known (("Some", v) / ("None",) / ("Ok", v) / ("Err", v) /
+    (<enum constructor>, payload) / a Python bool), items (tuple components, closure parts, payload marks), enc (how an
+    UNKNOWN Option / Result is spelled in Coq: the pair of patterns of cfg["encodings"])"""
+    __slots__ = ("ty", "term", "lit", "suf", "known", "items", "enc")
+
+    def __init__(self, ty, term=None, lit=None, suf=None, known=None, items=None, enc=None):
+        # a value without a term must never end up in the generated text: NO_TERM refuses to be formatted
+        self.ty, self.term, self.lit, self.suf, self.known, self.items, self.enc = \
+            ty, (NO_TERM if term is None else term), lit, suf, known, items, enc
+
+    @property
+    def has_term(self):
+        return self.term is not NO_TERM
+
+    def __repr__(self):
+        return "CollV(%r, %s)" % (self.ty, self.term if self.has_term else "<no term>")
+
+
+COLL_HOLE = "\0HOLE"
+
+
+class FnColl:
+    """cfg keys:
+      fields        {(rust name, field): CollV}                     `context.arguments`, `context.state`
+      args_term     Coq term of the argument vector
+      ctors         {rust path: f(fn, [CollV], expect) -> CollV}     CommandResult::Continue, HashMap::new is a path
+      paths         {rust path: f(fn, [CollV], h, k, ctx, expect) -> Coq term}     free / associated functions with effects
+      methods       {(type tag, method): f(fn, recv CollV, cell or None, [CollV], h, k, ctx, turbofish, expect) -> Coq term}
+      macros        {name: f(fn, [arg exprs], env, h, k, ctx, expect) -> Coq term}
+      index         f(fn, base CollV, index expr, env, h, k, ctx) -> Coq term           v[i]
+      index_assign  f(fn, base CollV, cell, index CollV, value CollV, h, k, ctx) -> Coq term    v[i] = e
+      iter          f(fn, CollV, h) -> CollV(("iter", T), term)       what a `for` iterates over
+      enums         {ty: [(model pattern fmt, [(rust ctor, payload ty or None, discriminator ctor or None)], discriminator fmt or None)]}
+      compare       {ty: {"<": fmt, "<=": fmt, "==": fmt}}
+      arith         {(ty, op): checked function name}               result option: None is the panic arm
+      literal       {ty: fmt % int}
+      types         f(type text) -> ty
+      helpers       {name: ([(param, type text)], return type text, body)}
+      coq_type      f(ty) -> Coq type text
+      encodings     {name: (good pattern fmt, bad pattern fmt, bad payload ty or None)}   e.g. "option": ("Some %s", "None", None)
+    """
+
+    def __init__(self, cfg):
+        self.cfg = cfg
+        self.names = {}
+        self.argcache = {}
+        self.ncell = 0
+
+    # ---- small helpers
+    def fresh(self, base):
+        base = "v_" + re.sub(r"[^A-Za-z0-9_]", "_", str(base))
+        n = self.names.get(base, 0)
+        self.names[base] = n + 1
+        return base if n == 0 else "%s_%d" % (base, n)
+
+    def cell(self):
+        self.ncell += 1
+        return self.ncell
+
+    def bind(self, env, h, name, v):
+        c = self.cell()
+        env2, h2 = dict(env), dict(h)
+        env2[name] = c
+        h2[c] = v
+        return env2, h2
+
+    @staticmethod
+    def is_ref(v):
+        return isinstance(v.ty, tuple) and v.ty[0] == "ref"
+
+    def deref(self, v, h):
+        while self.is_ref(v):
+            v = h[v.ty[1]]
+        return v
+
+    def place(self, e, env, h):
+        """the cell a place expression names (a variable, `&mut variable`), following references; None otherwise"""
+        while e[0] in ("ref", "refmut"):
+            e = e[1]
+        if e[0] == "path" and len(e[1]) == 1 and e[1][0] in env:
+            c = env[e[1][0]]
+            while self.is_ref(h[c]):
+                c = h[c].ty[1]
+            return c
+        return None
+
+    @staticmethod
+    def write(h, c, v):
+        h2 = dict(h)
+        h2[c] = v
+        return h2
+
+    def ty_of_text(self, text):
+        return None if text is None else self.cfg["types"](text)
+
+    def match2(self, scrut, pat1, body1, pat2, body2):
+        return "match %s with\n| %s =>\n%s\n| %s =>\n%s\nend" % (scrut, pat1, cmd_indent(body1, 4), pat2, cmd_indent(body2, 4))
+
+    def matchn(self, scrut, arms):
+        return "match %s with\n%s\nend" % (scrut, "\n".join("| %s =>\n%s" % (p, cmd_indent(b, 4)) for p, b in arms))
+
+    def ite(self, c, a, b):
+        return "if %s\nthen\n%s\nelse\n%s" % (c, cmd_indent(a), cmd_indent(b))
+
+    def literal(self, v, ty):
+        if v.ty != "intlit":
+            return v
+        if ty not in self.cfg["literal"]:
+            raise Rs2vError("integer literal used at type %r" % (ty,))
+        return CollV(ty, self.cfg["literal"][ty] % v.items)
+
+    def unify(self, a, b):
+        if a.ty == "intlit" and b.ty != "intlit":
+            a = self.literal(a, b.ty)
+        elif b.ty == "intlit" and a.ty != "intlit":
+            b = self.literal(b, a.ty)
+        elif a.ty == "intlit" and b.ty == "intlit":
+            raise Rs2vError("operation on two integer literals")
+        if a.ty != b.ty:
+            raise Rs2vError("operands of different types %r / %r" % (a.ty, b.ty))
+        return a, b
+
+    def straight(self, e, env, h, ctx, expect=None, block=False):
+        """execute an expression / block that must be free of control flow and of panicking operations: (value, heap after)"""
+        box = []
+
+        def k(v, h2):
+            box.append((v, h2))
+            return COLL_HOLE
+
+        def no_ret(v, h2):
+            raise Rs2vError("`return` where straight-line code is required")
+        ctx2 = dict(ctx)
+        ctx2["ret"] = no_ret
+        t = self.block(e, env, h, k, ctx2, expect) if block else self.ex(e, env, h, k, ctx2, expect)
+        if t != COLL_HOLE or len(box) != 1:
+            raise Rs2vError("control flow or a panicking operation where straight-line code is required")
+        return box[0]
+
+    # ---- the whole function
+    def function(self, body, params, heap, ctx):
+        """params {rust name: CollV} (bound to fresh cells), heap {cell: CollV} the cells that exist before (state components)"""
+        env, h = {}, dict(heap)
+        for n, v in params.items():
+            env, h = self.bind(env, h, n, v)
+        return self.block(body, env, h, ctx["ret"], ctx, ctx.get("ret_type"))
+
+    # ---- blocks and statements
+    def block(self, b, env, h, k, ctx, expect=None):
+        if b is None:
+            return k(CollV("unit"), h)
+        if b[0] != "block":
+            return self.ex(b, env, h, k, ctx, expect)
+        return self.stmts(list(b[1]), b[2], env, h, k, ctx, expect)
+
+    def stmts(self, ss, tail, env, h, k, ctx, expect):
+        if not ss:
+            if tail is None:
+                return k(CollV("unit"), h)
+            return self.ex(tail, env, h, k, ctx, expect)
+        s, rest = ss[0], ss[1:]
+        kind = s[0]
+        if kind == "let":
+            name, e = s[1], s[2]
+            ty = self.ty_of_text(s[3]) if len(s) > 3 else None
+
+            def k_let(v, h1):
+                if ty is not None:
+                    v = self.ascribe(v, ty)
+                env2, h2 = self.bind(env, h1, name, v)
+                return self.stmts(rest, tail, env2, h2, k, ctx, expect)
+            return self.ex(e, env, h, k_let, ctx, ty)
+        if kind == "lettuple":
+            names, e = s[1], s[2]
+
+            def k_tup(v, h1):
+                if v.ty != "tuple" or len(v.items) != len(names):
+                    raise Rs2vError("let (%s) = a value that is not such a tuple" % ", ".join(names))
+                env2, h2 = env, h1
+                for n, x in zip(names, v.items):
+                    env2, h2 = self.bind(env2, h2, n, x)
+                return self.stmts(rest, tail, env2, h2, k, ctx, expect)
+            return self.ex(e, env, h, k_tup, ctx, None)
+        if kind == "return":
+            if s[1] is None:
+                return ctx["ret"](CollV("unit"), h)
+            return self.ex(s[1], env, h, ctx["ret"], ctx, ctx.get("ret_type"))
+        if kind == "for":
+            return self.for_(s, env, h, lambda h1: self.stmts(rest, tail, env, h1, k, ctx, expect), ctx)
+        if kind == "assign":
+            return self.assign(s, env, h, lambda h1: self.stmts(rest, tail, env, h1, k, ctx, expect), ctx)
+        if kind == "expr":
+            # the value of an expression statement is dropped (Rust: `e;`)
+            return self.ex(s[1], env, h, lambda v, h1: self.stmts(rest, tail, env, h1, k, ctx, expect), ctx, None)
+        raise Rs2vError("statement %s" % kind)
+
+    def ascribe(self, v, ty):
+        if v.ty == "intlit":
+            return self.literal(v, ty)
+        if isinstance(ty, tuple) and isinstance(v.ty, tuple) and ty[0] == v.ty[0] and None in (ty[1:] + v.ty[1:]):
+            return v
+        if v.ty != ty:
+            raise Rs2vError("let of type %r bound to a value of type %r" % (ty, v.ty))
+        return v
+
+    def assign(self, s, env, h, k_next, ctx):
+        _, lhs, op, rhs = s
+        if op != "=":
+            raise Rs2vError("assignment operator %s" % op)
+        if lhs[0] == "index":
+            c = self.place(lhs[1], env, h)
+            if c is None:
+                raise Rs2vError("assignment to an element of something that is not a variable")
+
+            def k_ix(ix, h1):
+                def k_v(v, h2):
+                    return self.cfg["index_assign"](self, h2[c], c, ix, v, h2, lambda v3, h3: k_next(h3), ctx)
+                return self.ex(rhs, env, h1, k_v, ctx, None)
+            return self.ex(lhs[2], env, h, k_ix, ctx, None)
+        c = self.place(lhs, env, h) if lhs[0] == "path" else None
+        if c is None:
+            raise Rs2vError("assignment to something that is not a variable")
+        return self.ex(rhs, env, h, lambda v, h1: k_next(self.write(h1, c, v)), ctx, None)
+
+    def for_(self, s, env, h, k_next, ctx):
+        """for x in ITER { straight-line body that mutates exactly one cell }  ->  fold_left on that cell"""
+        _, pat, it, body = s
+        if not isinstance(pat, str):
+            raise Rs2vError("for over a tuple pattern")
+
+        def k_it(itv, h1):
+            itv = self.cfg["iter"](self, self.deref(itv, h1), h1)
+            x = self.fresh(pat)
+            env_b, h_b = self.bind(env, h1, pat, CollV(itv.ty[1], x))
+            _v, h_out = self.straight(body, env_b, h_b, ctx, block=True)
+            changed = [c for c in h1 if h_out[c] is not h1[c]]
+            if not changed:
+                return k_next(h1)
+            if len(changed) > 1:
+                raise Rs2vError("for loop that mutates several variables")
+            c = changed[0]
+            acc = self.fresh("acc")
+            h_b2 = self.write(h_b, c, CollV(h_out[c].ty, acc))
+            _v, h_out2 = self.straight(body, env_b, h_b2, ctx, block=True)
+            if [cc for cc in h1 if h_out2[cc] is not h_b2[cc]] != [c]:
+                raise Rs2vError("for loop whose body does not act uniformly")
+            new = h_out2[c]
+            term = "(fold_left (fun (%s : %s) (%s : %s) => %s) %s %s)" % (
+                acc, self.cfg["coq_type"](new.ty), x, self.cfg["coq_type"](itv.ty[1]), new.term, itv.term, h1[c].term)
+            return k_next(self.write(h1, c, CollV(new.ty, term)))
+        return self.ex(it, env, h, k_it, ctx, None)
+
+    # ---- expressions
+    def ex(self, e, env, h, k, ctx, expect=None):
+        kind = e[0]
+        if kind == "str":
+            return k(CollV("str", coq_str_lit(e[1]), lit=e[1], suf=e[1], known="lit"), h)
+        if kind == "num":
+            v = CollV("intlit", None, items=e[1])
+            if isinstance(expect, str) and expect in self.cfg["literal"]:
+                v = self.literal(v, expect)
+            return k(v, h)
+        if kind == "bool":
+            return k(CollV("bool", "true" if e[1] else "false", known=e[1]), h)
+        if kind == "path":
+            return self.path(e, env, h, k, ctx, expect)
+        if kind == "refmut":
+            c = self.place(e[1], env, h)
+            if c is not None:
+                return k(CollV(("ref", c)), h)
+            return self.ex(e[1], env, h, k, ctx, expect)
+        if kind == "ref":
+            return self.ex(e[1], env, h, k, ctx, expect)
+        if kind == "not":
+            def k_not(v, h1):
+                if v.ty != "bool":
+                    raise Rs2vError("! on %r" % (v.ty,))
+                if isinstance(v.known, bool):
+                    return k(CollV("bool", "false" if v.known else "true", known=not v.known), h1)
+                return k(CollV("bool", "(negb %s)" % v.term), h1)
+            return self.ex(e[1], env, h, k_not, ctx, "bool")
+        if kind == "tuple":
+            return self.seq(e[1], env, h, lambda vs, h1: k(CollV("unit") if not vs else CollV("tuple", items=vs), h1), ctx)
+        if kind == "bin":
+            return self.bin(e, env, h, k, ctx)
+        if kind == "field":
+            if e[1][0] == "path" and len(e[1][1]) == 1 and (e[1][1][0], e[2]) in self.cfg["fields"]:
+                return k(self.cfg["fields"][(e[1][1][0], e[2])], h)
+            raise Rs2vError("field .%s" % e[2])
+        if kind == "index":
+            return self.ex(e[1], env, h, lambda b, h1: self.cfg["index"](self, self.deref(b, h1), e[2], env, h1, k, ctx), ctx, None)
+        if kind == "call":
+            return self.call(e, env, h, k, ctx, expect)
+        if kind == "mcall":
+            return self.mcall(e, env, h, k, ctx, expect)
+        if kind == "macro":
+            m = self.cfg["macros"].get(e[1])
+            if m is None:
+                raise Rs2vError("macro %s!" % e[1])
+            return m(self, e[2], env, h, k, ctx, expect)
+        if kind == "if":
+            return self.if_(e, env, h, k, ctx, expect)
+        if kind == "iflet":
+            arms = [(e[1], e[3]), (("wild",), e[4] if e[4] is not None else ("block", [], None))]
+            return self.match(("match", e[2], arms), env, h, k, ctx, expect)
+        if kind == "match":
+            return self.match(e, env, h, k, ctx, expect)
+        if kind == "block":
+            return self.block(e, env, h, k, ctx, expect)
+        if kind == "closure":
+            return k(CollV("closure", items=(e[1], e[2], env)), h)
+        raise Rs2vError("expression %s" % kind)
+
+    def seq(self, es, env, h, k, ctx, expects=None):
+        """evaluate expressions left to right"""
+        def go(i, acc, h1):
+            if i == len(es):
+                return k(acc, h1)
+            return self.ex(es[i], env, h1, lambda v, h2: go(i + 1, acc + [v], h2), ctx, expects[i] if expects else None)
+        return go(0, [], h)
+
+    def path(self, e, env, h, k, ctx, expect):
+        p = e[1]
+        if len(p) == 1 and p[0] in env:
+            return k(h[env[p[0]]], h)
+        if p == ["None"]:
+            inner = expect[1] if isinstance(expect, tuple) and expect[0] in ("opt", "wrap") else None
+            return k(CollV(("opt", inner), "None", known=("None",)), h)
+        raise Rs2vError("name %s" % "::".join(p))
+
+    CMP = {"<": ("<", False, False), "<=": ("<=", False, False), ">": ("<", True, False), ">=": ("<=", True, False),
+           "==": ("==", False, False), "!=": ("==", False, True)}
+
+    def bin(self, e, env, h, k, ctx):
+        op = e[1]
+        if op in ("&&", "||"):
+            def k_l(a, h1):
+                if a.ty != "bool":
+                    raise Rs2vError("%s on %r" % (op, a.ty))
+
+                def k_r(b, h2):
+                    if b.ty != "bool":
+                        raise Rs2vError("%s on %r" % (op, b.ty))
+                    return k(b, h2)
+                short = CollV("bool", "false" if op == "&&" else "true", known=(op == "||"))
+                if isinstance(a.known, bool):
+                    return self.ex(e[3], env, h1, k_r, ctx, "bool") if a.known == (op == "&&") else k(short, h1)
+                go_on, stop = self.ex(e[3], env, h1, k_r, ctx, "bool"), k(short, h1)
+                return self.ite(a.term, go_on, stop) if op == "&&" else self.ite(a.term, stop, go_on)
+            return self.ex(e[2], env, h, k_l, ctx, "bool")
+        if op == "..":
+            def k_rng(vs, h1):
+                a, b = self.unify(self.deref(vs[0], h1), self.deref(vs[1], h1))
+                return k(CollV(("range", a.ty), items=[a, b]), h1)
+            return self.seq([e[2], e[3]], env, h, k_rng, ctx)
+
+        def k_ops(vs, h1):
+            a, b = self.unify(self.deref(vs[0], h1), self.deref(vs[1], h1))
+            if op not in self.CMP:
+                f = self.cfg.get("arith", {}).get((a.ty, op))
+                if f is None:
+                    raise Rs2vError("%s on %r" % (op, a.ty))
+                x = self.fresh("n")
+                return self.match2("%s %s %s" % (f, a.term, b.term), "Some %s" % x, k(CollV(a.ty, x), h1), "None", ctx["panic"])
+            base, swap, neg = self.CMP[op]
+            fm = self.cfg["compare"].get(a.ty, {}).get(base)
+            if fm is None:
+                raise Rs2vError("%s on %r" % (op, a.ty))
+            t = fm % ((b.term, a.term) if swap else (a.term, b.term))
+            return k(CollV("bool", "(negb %s)" % t if neg else t), h1)
+        return self.seq([e[2], e[3]], env, h, k_ops, ctx)
+
+    def if_(self, e, env, h, k, ctx, expect):
+        def k_c(c, h1):
+            if c.ty != "bool":
+                raise Rs2vError("if on %r" % (c.ty,))
+            if isinstance(c.known, bool):
+                return self.block(e[2] if c.known else e[3], env, h1, k, ctx, expect)
+            return self.ite(c.term, self.block(e[2], env, h1, k, ctx, expect), self.block(e[3], env, h1, k, ctx, expect))
+        return self.ex(e[1], env, h, k_c, ctx, "bool")
+
+    # ---- match
+    def arm_for(self, arms, ctor):
+        """the first arm that takes constructor ctor: (binder name / None / ("%whole", name), body)"""
+        for pat, body in arms:
+            if pat[0] == "wild":
+                return None, body
+            if pat[0] == "ctor" and pat[1][-1] == ctor and (pat[2] or ctor[:1].isupper()):
+                if len(pat[2]) > 1:
+                    raise Rs2vError("%s pattern with %d sub-patterns" % (ctor, len(pat[2])))
+                return (pat[2][0] if pat[2] else None), body
+            if pat[0] == "ctor" and not pat[2] and len(pat[1]) == 1 and pat[1][0][:1].islower():
+                return ("%whole", pat[1][0]), body            # a variable pattern binds the whole value
+        raise Rs2vError("match without an arm for %s" % ctor)
+
+    def names_ctor(self, arms, ctor):
+        return any(pat[0] == "ctor" and pat[1][-1] == ctor for pat, _b in arms)
+
+    def parse_hint(self, arms, expect):
+        for pat, body in arms:
+            if pat[0] == "ctor" and pat[1][-1] == "Ok" and len(pat[2]) == 1 and pat[2][0] is not None:
+                v = pat[2][0]
+                if body == ("path", [v]) and expect is not None and not isinstance(expect, tuple):
+                    return ("wrap", expect)
+                if body[0] == "call" and body[1] == ("path", ["Ok"]) and body[2] == [("path", [v])] \
+                        and isinstance(expect, tuple) and expect[0] == "res":
+                    return ("wrap", expect[1])
+        return None
+
+    def run_arm(self, arms, ctor, whole, payload, env, h, k, ctx, expect):
+        name, body = self.arm_for(arms, ctor)
+        env2, h2 = env, h
+        if isinstance(name, tuple):
+            env2, h2 = self.bind(env, h, name[1], whole)
+        elif name is not None:
+            if payload is None:
+                raise Rs2vError("pattern variable %s for a value without a payload" % name)
+            env2, h2 = self.bind(env, h, name, payload)
+        return self.block(body, env2, h2, k, ctx, expect)
+
+    def normal_arms(self, arms):
+        """alternatives `A | B => e` become one arm each; arms with a NESTED constructor pattern `C(D(x)) => e` are grouped
+        per outer constructor into `C(t) => match t { D(x) => e, .. }` (first-match order kept; a later `_` arm of the outer
+        match also closes the inner one)"""
+        flat = []
+        for pat, body in arms:
+            if pat[0] == "or":
+                flat += [(p, body) for p in pat[1]]
+            else:
+                flat.append((pat, body))
+
+        def nested(pat):
+            return pat[0] == "ctor" and any(isinstance(x, tuple) for x in pat[2])
+        if not any(nested(pat) for pat, _b in flat):
+            return flat
+        out, grouped = [], set()
+        for i, (pat, body) in enumerate(flat):
+            c = pat[1][-1] if pat[0] == "ctor" else None
+            if c is not None and c in grouped:
+                continue
+            if not nested(pat):
+                out.append((pat, body))
+                continue
+            if len(pat[2]) != 1:
+                raise Rs2vError("nested pattern of a constructor with %d fields" % len(pat[2]))
+            grouped.add(c)
+            self.ntmp = getattr(self, "ntmp", 0) + 1
+            tmp = "m_%d" % self.ntmp
+            inner = []
+            for p2, b2 in flat[i:]:
+                if p2[0] == "wild":
+                    inner.append((p2, b2))
+                    break
+                if p2[0] != "ctor":
+                    raise Rs2vError("literal pattern next to nested patterns")
+                if not p2[2] and len(p2[1]) == 1 and p2[1][0][:1].islower():
+                    raise Rs2vError("variable pattern next to nested patterns")
+                if p2[1][-1] != c:
+                    continue
+                x = p2[2][0] if p2[2] else None
+                if isinstance(x, tuple):
+                    inner.append((x, b2))
+                    continue
+                inner.append((("wild",) if x is None else ("ctor", [x], []), b2))
+                break
+            out.append((("ctor", pat[1], [tmp]), ("match", ("path", [tmp]), inner)))
+        return out
+
+    def match(self, e, env, h, k, ctx, expect):
+        arms = self.normal_arms(e[2])
+        hint = self.parse_hint(arms, expect)
+
+        def k_s(v0, h1):
+            v = self.deref(v0, h1)
+            t = v.ty
+            tag = t[0] if isinstance(t, tuple) else t
+            if tag in ("opt", "res"):
+                good, bad = ("Some", "None") if tag == "opt" else ("Ok", "Err")
+                if v.known is not None:
+                    return self.run_arm(arms, v.known[0], v, v.known[1] if len(v.known) > 1 else None, env, h1, k, ctx, expect)
+                gp, bp, bad_ty = self.cfg["encodings"][v.enc or "option"]
+                gname, _ = self.arm_for(arms, good)
+                x = self.fresh(gname if isinstance(gname, str) else "x")
+                good_body = self.run_arm(arms, good, v, CollV(t[1], x), env, h1, k, ctx, expect)
+                if "%s" in bp:
+                    bname, _ = self.arm_for(arms, bad)
+                    y = self.fresh(bname if isinstance(bname, str) else "e")
+                    bad_body = self.run_arm(arms, bad, v, CollV(bad_ty, y), env, h1, k, ctx, expect)
+                    return self.match2(v.term, gp % x, good_body, bp % y, bad_body)
+                bad_body = self.run_arm(arms, bad, v, None if tag == "opt" else CollV(t[2]), env, h1, k, ctx, expect)
+                return self.match2(v.term, gp % x, good_body, bp, bad_body)
+            if t in self.cfg["enums"]:
+                if v.known is not None and v.known != "lit":
+                    return self.run_arm(arms, v.known[0], v, v.known[1] if len(v.known) > 1 else None, env, h1, k, ctx, expect)
+                out = []
+                for pat_fmt, rust_ctors, disc_fmt in self.cfg["enums"][t]:
+                    if len(rust_ctors) == 1:
+                        ctor, pty, _d = rust_ctors[0]
+                        name, _b = self.arm_for(arms, ctor)
+                        x = self.fresh(name if isinstance(name, str) else ctor.lower())
+                        payload = CollV(pty, x) if pty is not None else None
+                        out.append((pat_fmt % x, self.run_arm(arms, ctor, v, payload, env, h1, k, ctx, expect)))
+                        continue
+                    # several Rust constructors behind one constructor of the model
+                    if not any(self.names_ctor(arms, c) for c, _p, _d in rust_ctors):
+                        # the source does not tell them apart either (a catch-all arm takes them all)
+                        out.append((pat_fmt % "_", self.run_arm(arms, rust_ctors[0][0], v, None, env, h1, k, ctx, expect)))
+                        continue
+                    x = self.fresh("tag")
+                    inner = []
+                    for ctor, _pty, disc in rust_ctors:
+                        payload = CollV(("payload", ctor), None, items=(t, x))
+                        inner.append((disc, self.run_arm(arms, ctor, v, payload, env, h1, k, ctx, expect)))
+                    out.append((pat_fmt % x, self.matchn(disc_fmt % x, inner)))
+                return self.matchn(v.term, out)
+            raise Rs2vError("match on a value of type %r" % (t,))
+        return self.ex(e[1], env, h, k_s, ctx, hint)
+
+    # ---- calls
+    def call(self, e, env, h, k, ctx, expect):
+        if e[1][0] != "path":
+            raise Rs2vError("call of a computed function")
+        p = "::".join(e[1][1])
+        if p in ("Some", "Ok", "Err"):
+            if len(e[2]) != 1:
+                raise Rs2vError("%s with %d arguments" % (p, len(e[2])))
+            inner = None
+            if isinstance(expect, tuple) and expect[0] in ("opt", "res", "wrap"):
+                inner = expect[2] if (p == "Err" and expect[0] == "res") else expect[1]
+
+            def k_ctor(v, h1):
+                if p == "Some":
+                    return k(CollV(("opt", v.ty), None, known=("Some", v)), h1)
+                other = expect[2 if p == "Ok" else 1] if isinstance(expect, tuple) and expect[0] == "res" else None
+                return k(CollV(("res", v.ty, other) if p == "Ok" else ("res", other, v.ty), None, known=(p, v)), h1)
+            return self.ex(e[2][0], env, h, k_ctor, ctx, inner)
+        if len(e[1][1]) == 1 and p in env:
+            f = self.deref(h[env[p]], h)
+            if not (isinstance(f.ty, tuple) and f.ty[0] == "fn"):
+                raise Rs2vError("call of %s, which is not a function" % p)
+            return self.seq(e[2], env, h, lambda vs, h1: self.cfg["call_fn"](self, f, vs, h1, k, ctx), ctx)
+        if p in self.cfg["helpers"]:
+            params, ret_text, body = self.cfg["helpers"][p]
+            if len(params) != len(e[2]):
+                raise Rs2vError("call of %s with %d arguments" % (p, len(e[2])))
+            ret = self.ty_of_text(ret_text)
+
+            def k_args(vs, h1):
+                henv, h2 = {}, h1
+                for (pn, _pt), v in zip(params, vs):
+                    henv, h2 = self.bind(henv, h2, pn, v)
+                hctx = dict(ctx)
+                hctx["ret"], hctx["ret_type"] = k, ret
+                return self.block(body, henv, h2, k, hctx, ret)
+            return self.seq(e[2], env, h, k_args, ctx)
+        c = self.cfg["ctors"].get(p)
+        if c is not None:
+            return self.seq(e[2], env, h, lambda vs, h1: k(c(self, [self.deref(v, h1) for v in vs], expect), h1), ctx)
+        f = self.cfg["paths"].get(p)
+        if f is None:
+            raise Rs2vError("call of %s" % p)
+        return self.seq(e[2], env, h, lambda vs, h1: f(self, vs, h1, k, ctx, expect), ctx)
+
+    IDENT = ("clone", "to_owned", "as_str", "as_ref", "borrow", "to_string")
+
+    def mcall(self, e, env, h, k, ctx, expect):
+        recv, name, args = e[1], e[2], e[3]
+        tf = e[4] if len(e) > 4 else None
+
+        def k_r(r0, h1):
+            c = r0.ty[1] if self.is_ref(r0) else self.place(recv, env, h1)
+            while c is not None and self.is_ref(h1[c]):
+                c = h1[c].ty[1]
+            r = self.deref(r0, h1)
+            tag = r.ty[0] if isinstance(r.ty, tuple) else r.ty
+            if name in self.IDENT and not args and (tag, name) not in self.cfg["methods"] and tag in self.cfg["ident_types"]:
+                return k(r, h1)
+            if name in ("is_some", "is_none") and tag == "opt" and not args:
+                if r.known is not None:
+                    b = (r.known[0] == "Some") == (name == "is_some")
+                    return k(CollV("bool", "true" if b else "false", known=b), h1)
+                raise Rs2vError("%s on an Option that is not statically known" % name)
+            m = self.cfg["methods"].get((tag, name))
+            if m is None:
+                raise Rs2vError("method %s on a value of type %r" % (name, r.ty))
+            return self.seq(args, env, h1, lambda vs, h2: m(self, self.deref(h2[c], h2) if c is not None else r, c,
+                                                            [v if v.ty == "closure" else self.deref(v, h2) for v in vs],
+                                                            h2, k, ctx, tf, expect), ctx)
+        return self.ex(recv, env, h, k_r, ctx, None)
+
+    # ---- closures as Coq functions
+    def closure_fun(self, clo, param_ty, h, finish, panic, ret_type):
+        """`|x| body` as `fun x : T => tree`: x is the value behind the closure's `&mut` parameter; finish(fn, v, new x) is a
+        leaf; a closure that mutates anything else is not understood"""
+        names, body, cenv = clo.items
+        if len(names) != 1:
+            raise Rs2vError("closure of %d parameters" % len(names))
+        x = self.fresh(names[0])
+        env2, h2 = self.bind(cenv, h, names[0], CollV(param_ty, x))
+        c = env2[names[0]]
+
+        def ret(v, h3):
+            for cc in h:
+                if h3[cc] is not h[cc]:
+                    raise Rs2vError("closure that mutates a captured variable")
+            return finish(self, self.deref(v, h3), h3[c])
+        cctx = {"ret": ret, "panic": panic, "ret_type": ret_type}
+        saved = self.argcache
+        self.argcache = dict(saved)
+        try:
+            term = self.block(body, env2, h2, ret, cctx, ret_type)
+        finally:
+            self.argcache = saved
+        return "(fun %s : %s =>\n%s)" % (x, self.cfg["coq_type"](param_ty), cmd_indent(term))
